@@ -861,29 +861,157 @@ Qed.
 
 Definition caps_ok (caps : list (Z * Z)) : Prop := Forall (fun c => 0 <= fst c) caps.
 
-Lemma exec_caps e r fwd f s wl s' evs :
+(* what one step does to the fields that are not about the position *)
+Lemma step_frame e locked r fwd a s wl s' wl' evs :
+  step e locked r fwd a s wl = (s', wl', evs) ->
+  (b_caps s' = b_caps s \/ exists i, b_caps s' = b_caps s ++ [(r, i)]) /\
+  (b_susp s' = b_susp s \/ (exists req, b_susp s' = Some (wl, req) /\ wl' = [] /\ locked = false /\ b_idx s' = b_idx s /\
+                                         accepted (b_app s') req = true)) /\
+  (b_dead s' = b_dead s \/ (b_dead s' = true /\ wl' = [] /\ locked = true /\ (b_app s' = 2 \/ b_app s' = 4) /\
+                             is_app (e_mode e) = true)).
+Proof.
+  intro H.
+  assert (CB : forall s0 evs0 k,
+            on_callback e locked r fwd s0 wl evs0 k = (s', wl', evs) ->
+            (k = (s', wl', evs)) \/
+            (b_caps s' = b_caps s0 /\ b_susp s' = b_susp s0 /\ b_dead s' = true /\ wl' = [] /\ locked = true /\
+             ((b_app s' = 2 \/ b_app s' = 4) /\ is_app (e_mode e) = true)) \/
+            (b_caps s' = b_caps s0 /\ b_dead s' = b_dead s0 /\ exists req, b_susp s' = Some (wl, req) /\ wl' = [] /\
+             locked = false /\ b_idx s' = b_idx s0 /\ accepted (b_app s') req = true)).
+  { intros s0 evs0 k HC. unfold on_callback in HC. destruct (request e fwd) as [req|] eqn:RQ; [|auto].
+    assert (IA : is_app (e_mode e) = true) by (unfold request in RQ; destruct (is_app (e_mode e)); [reflexivity | discriminate]).
+    destruct (accepted (b_app s0) req) eqn:AC; [|auto].
+    destruct locked; inv HC; simpl.
+    - right. left. repeat split; auto. destruct req; auto.
+    - right. right. repeat split; auto. exists req. repeat split; auto. }
+  unfold step in H. destruct a as [|i b|i p].
+  - destruct (past_end e fwd (b_idx s)).
+    + destruct (finish_effect (e_mode e) fwd true (b_app s) (b_cleaned s)) as [[app cl] pan].
+      destruct (CB _ _ _ H) as [K | [(A & B & C & D & E & F) | (A & B & req & C & D & E & F & G)]].
+      * destruct pan; [destruct (unwind r wl)|]; inv K; simpl; auto.
+      * simpl in *. split; [left; exact A|]. split; [left; exact B|]. right. auto.
+      * simpl in *. split; [left; exact A|]. split; [|left; exact B]. right. exists req. auto.
+    + destruct ((b_idx s <? 0) || (nmods e <=? b_idx s)).
+      * destruct (unwind r wl). inv H. auto.
+      * inv H. simpl. split; [right; eexists; reflexivity | auto].
+  - destruct b.
+    + inv H. simpl. auto.
+    + destruct (CB _ _ _ H) as [K | [(A & B & C & D & E & F) | (A & B & req & C & D & E & F & G)]].
+      * inv K. auto.
+      * split; [left; exact A|]. split; [left; exact B|]. right. auto.
+      * split; [left; exact A|]. split; [|left; exact B]. right. exists req. auto.
+  - inv H. auto.
+Qed.
+
+Lemma exec_caps e locked r fwd f s wl s' evs :
   0 <= r -> (phi e fwd (b_idx s) wl <= f)%nat -> Good e fwd s wl -> caps_ok (b_caps s) ->
   exec e locked r fwd f s wl = (s', evs) -> caps_ok (b_caps s').
 Proof.
   intros R F G C H.
   refine (exec_preserves e locked r fwd (fun s _ _ => caps_ok (b_caps s)) _ f s wl [] s' evs F G C H).
-  intros s0 a wl0 acc s1 wl1 evs1 G0 C0 E. unfold step in E.
-  destruct a as [|i b|i p].
-  - destruct (past_end e fwd (b_idx s0)).
-    + destruct (finish_effect (e_mode e) fwd true (b_app s0) (b_cleaned s0)) as [[app cl] pan].
-      destruct pan; [destruct (unwind r wl0)|]; inv E; exact C0.
-    + destruct ((b_idx s0 <? 0) || (nmods e <=? b_idx s0)).
-      * destruct (unwind r wl0). inv E. exact C0.
-      * inv E. simpl. apply Forall_app. split; [exact C0|]. repeat constructor. exact R.
-  - destruct b; inv E; exact C0.
-  - inv E. exact C0.
+  intros s0 a wl0 acc s1 wl1 evs1 G0 C0 E.
+  destruct (step_frame _ _ _ _ _ _ _ _ _ _ E) as ([-> | [i ->]] & _); [exact C0|].
+  apply Forall_app. split; [exact C0|]. repeat constructor. exact R.
+Qed.
+
+Lemma phi_rest e fwd idx a wl : no_do wl = true -> (phi e fwd idx wl < phi e fwd idx (a :: wl))%nat.
+Proof.
+  intro W. unfold phi. rewrite (slot_no_do _ _ _ _ W). simpl sumwt. destruct a; simpl; lia.
+Qed.
+
+(* a burst that ends suspended: the rest of the work list still satisfies the run's invariant *)
+Lemma exec_susp e locked r fwd f s wl acc s' evs B :
+  (phi e fwd (b_idx s) wl <= f)%nat -> Good e fwd s wl -> b_susp s = None ->
+  RunInv e fwd (proj r acc) (b_idx s) wl -> (phi e fwd (b_idx s) wl <= B)%nat ->
+  exec e locked r fwd f s wl = (s', evs) ->
+  match b_susp s' with
+  | None => True
+  | Some (wl0, _) => RunInv e fwd (proj r (acc ++ evs)) (b_idx s') wl0 /\ no_do wl0 = true /\
+                     (phi e fwd (b_idx s') wl0 < B)%nat /\ locked = false
+  end.
+Proof.
+  intros F G SN L PB H.
+  assert (X : match b_susp s' with
+              | None => RunInv e fwd (proj r (acc ++ evs)) (b_idx s') [] /\ (phi e fwd (b_idx s') [] <= B)%nat
+              | Some (wl0, _) => [] = @nil act /\ RunInv e fwd (proj r (acc ++ evs)) (b_idx s') wl0 /\ no_do wl0 = true /\
+                                 (phi e fwd (b_idx s') wl0 < B)%nat /\ locked = false
+              end).
+  { refine (exec_preserves e locked r fwd
+              (fun s wl acc => match b_susp s with
+                 | None => RunInv e fwd (proj r acc) (b_idx s) wl /\ (phi e fwd (b_idx s) wl <= B)%nat
+                 | Some (wl0, _) => wl = [] /\ RunInv e fwd (proj r acc) (b_idx s) wl0 /\ no_do wl0 = true /\
+                                    (phi e fwd (b_idx s) wl0 < B)%nat /\ locked = false
+                 end) _ f s wl acc s' evs F G _ H).
+    - intros s0 a wl0 acc0 s1 wl1 evs1 G0 I0 E.
+      destruct (b_susp s0) as [[w q]|] eqn:S0; [destruct I0 as [X _]; discriminate|].
+      destruct I0 as [(A & Bc & C) PB0].
+      assert (R1 : RunInv e fwd (proj r (acc0 ++ evs1)) (b_idx s1) wl1).
+      { split; [|split]; [eapply step_link | eapply step_acct | eapply step_mono]; eauto. }
+      destruct (step_good _ _ _ _ _ _ _ _ _ _ G0 E) as (G1 & D & _).
+      pose proof G0 as [_ W0]. unfold wl_ok in W0. simpl in W0.
+      destruct (step_frame _ _ _ _ _ _ _ _ _ _ E) as (_ & [SS | (req & SS & -> & LK & EI & _)] & _).
+      + rewrite SS, S0. split; [exact R1 | lia].
+      + rewrite SS. split; [reflexivity|]. split.
+        * eapply runinv_wl; [|exact R1]. simpl. symmetry. apply no_do_head. exact W0.
+        * split; [exact W0|]. split; [|exact LK]. rewrite EI.
+          pose proof (phi_rest e fwd (b_idx s0) a wl0 W0). lia.
+    - rewrite SN. split; assumption. }
+  destruct (b_susp s') as [[w q]|]; [|exact I]. tauto.
+Qed.
+
+Lemma exec_accepted e locked r fwd f s wl s' evs :
+  (phi e fwd (b_idx s) wl <= f)%nat -> Good e fwd s wl -> b_susp s = None ->
+  exec e locked r fwd f s wl = (s', evs) ->
+  match b_susp s' with Some (_, q) => accepted (b_app s') q = true | None => True end.
+Proof.
+  intros F G SN H.
+  assert (X : match b_susp s' with Some (_, q) => [] = @nil act /\ accepted (b_app s') q = true | None => True end).
+  { refine (exec_preserves e locked r fwd
+              (fun s wl _ => match b_susp s with Some (_, q) => wl = [] /\ accepted (b_app s) q = true | None => True end)
+              _ f s wl [] s' evs F G _ H).
+    - intros s0 a wl0 acc0 s1 wl1 evs1 G0 I0 E.
+      destruct (b_susp s0) as [[w q]|] eqn:S0; [destruct I0; discriminate|].
+      destruct (step_frame _ _ _ _ _ _ _ _ _ _ E) as (_ & [SS | (req & SS & -> & _ & _ & AC)] & _).
+      + rewrite SS, S0. exact I.
+      + rewrite SS. auto.
+    - rewrite SN. exact I. }
+  destruct (b_susp s') as [[w q]|]; [tauto | exact I].
+Qed.
+
+Lemma exec_dead e locked r fwd f s wl s' evs :
+  (phi e fwd (b_idx s) wl <= f)%nat -> Good e fwd s wl -> b_dead s = false ->
+  exec e locked r fwd f s wl = (s', evs) -> b_dead s' = true -> b_app s' = 2 \/ b_app s' = 4.
+Proof.
+  intros F G DN H D.
+  refine (proj2 (exec_preserves e locked r fwd
+            (fun s wl _ => b_dead s = true -> wl = [] /\ (b_app s = 2 \/ b_app s = 4))
+            _ f s wl [] s' evs F G _ H D)).
+  - intros s0 a wl0 acc0 s1 wl1 evs1 G0 I0 E D1.
+    destruct (b_dead s0) eqn:D0; [destruct (I0 eq_refl); discriminate|].
+    destruct (step_frame _ _ _ _ _ _ _ _ _ _ E) as (_ & _ & [X | (_ & -> & _ & A & _)]); [congruence | auto].
+  - intro X. congruence.
+Qed.
+
+Lemma exec_dead_app e locked r fwd f s wl s' evs :
+  (phi e fwd (b_idx s) wl <= f)%nat -> Good e fwd s wl -> b_dead s = false ->
+  exec e locked r fwd f s wl = (s', evs) -> b_dead s' = true -> is_app (e_mode e) = true.
+Proof.
+  intros F G DN H D.
+  refine (proj2 (exec_preserves e locked r fwd
+            (fun s wl _ => b_dead s = true -> wl = [] /\ is_app (e_mode e) = true)
+            _ f s wl [] s' evs F G _ H D)).
+  - intros s0 a wl0 acc0 s1 wl1 evs1 G0 I0 E D1.
+    destruct (b_dead s0) eqn:D0; [destruct (I0 eq_refl); discriminate|].
+    destruct (step_frame _ _ _ _ _ _ _ _ _ _ E) as (_ & _ & [X | (_ & -> & _ & _ & A)]); [congruence | auto].
+  - intro X. congruence.
 Qed.
 
 Definition GInv (e : env) (g : st) (log : list ev) : Prop :=
   caps_ok (s_caps g) /\
   Forall (tag_lt (Z.of_nat (length (s_runs g)))) log /\
-  forall k fwd idx, nth_error (s_runs g) k = Some (fwd, idx) ->
-    near e fwd idx /\ RunInv e fwd (proj (Z.of_nat k) log) idx [].
+  (forall k fwd idx, nth_error (s_runs g) k = Some (fwd, idx) ->
+     near e fwd idx /\ RunInv e fwd (proj (Z.of_nat k) log) idx []) /\
+  s_susp g = None.
 
 Lemma left_bound e fwd idx : near e fwd idx -> (left_of e fwd idx <= length (e_mods e))%nat.
 Proof. unfold near, left_of, nmods. destruct fwd; lia. Qed.
@@ -905,47 +1033,85 @@ Proof.
   apply (Nat.mul_le_mono_r _ _ (weight e)) in L. lia.
 Qed.
 
-Lemma burst_inv e g log r fwd idx0 idx wl g' evs :
+(* one burst of run r; the other runs may have work pending (Wf), it is not touched *)
+Lemma burst_inv e locked g log (Wf : nat -> list act) r fwd idx0 idx wl g' evs :
   0 <= r -> caps_ok (s_caps g) ->
   Forall (tag_lt (Z.of_nat (length (s_runs g)))) log ->
   (forall k fwd' idx', k <> Z.to_nat r -> nth_error (s_runs g) k = Some (fwd', idx') ->
-     near e fwd' idx' /\ RunInv e fwd' (proj (Z.of_nat k) log) idx' []) ->
+     near e fwd' idx' /\ RunInv e fwd' (proj (Z.of_nat k) log) idx' (Wf k)) ->
   nth_error (s_runs g) (Z.to_nat r) = Some (fwd, idx0) ->
   near e fwd idx -> wl_ok wl -> (phi e fwd idx wl <= fuel_for e)%nat ->
   RunInv e fwd (proj r log) idx wl ->
-  burst e g r fwd idx wl = (g', evs) ->
-  GInv e g' (log ++ evs) /\ Forall (tag_is r) evs /\ length (s_runs g') = length (s_runs g).
+  burst e locked g r fwd idx wl = (g', evs) ->
+  caps_ok (s_caps g') /\
+  Forall (tag_lt (Z.of_nat (length (s_runs g')))) (log ++ evs) /\
+  (forall k fwd' idx', nth_error (s_runs g') k = Some (fwd', idx') ->
+     near e fwd' idx' /\
+     RunInv e fwd' (proj (Z.of_nat k) (log ++ evs)) idx' (if Nat.eqb k (Z.to_nat r) then [] else Wf k)) /\
+  Forall (tag_is r) evs /\ length (s_runs g') = length (s_runs g) /\
+  (forall k, k <> Z.to_nat r -> nth_error (s_runs g') k = nth_error (s_runs g) k) /\
+  match s_susp g' with
+  | None => True
+  | Some (r1, wl1, _) =>
+      r1 = r /\ locked = false /\ no_do wl1 = true /\
+      exists idx1, nth_error (s_runs g') (Z.to_nat r) = Some (fwd, idx1) /\
+                   RunInv e fwd (proj r (log ++ evs)) idx1 wl1 /\ (phi e fwd idx1 wl1 < phi e fwd idx wl)%nat
+  end /\
+  match s_susp g' with Some (_, _, q) => accepted (s_app g') q = true | None => True end.
 Proof.
   intros R CK T O Hn N W F L H. unfold burst in H.
-  set (s0 := {| b_idx := idx; b_app := s_app g; b_cleaned := s_cleaned g; b_live := s_live g; b_prov := s_prov g; b_half := s_half g; b_caps := s_caps g |}) in *.
+  set (s0 := {| b_idx := idx; b_app := s_app g; b_cleaned := s_cleaned g; b_live := s_live g; b_bound := s_bound g; b_pub := s_pub g;
+                b_prov := s_prov g; b_half := s_half g; b_caps := s_caps g; b_susp := None; b_dead := false |}) in *.
   destruct (exec e locked r fwd (fuel_for e) s0 wl) as [s1 evs1] eqn:E. inv H. simpl.
   assert (G0 : Good e fwd s0 wl) by (split; assumption).
-  destruct (exec_tagged e r fwd (fuel_for e) s0 wl s1 evs F G0 E) as [TG N1].
-  pose proof (exec_runinv e r fwd (fuel_for e) s0 wl log s1 evs F G0 L E) as L1.
+  destruct (exec_tagged e locked r fwd (fuel_for e) s0 wl s1 evs F G0 E) as [TG N1].
+  pose proof (exec_runinv e locked r fwd (fuel_for e) s0 wl log s1 evs F G0 L E) as L1.
+  pose proof (exec_susp e locked r fwd (fuel_for e) s0 wl log s1 evs (phi e fwd idx wl) F G0 eq_refl L (le_n _) E) as SU.
+  pose proof (exec_accepted e locked r fwd (fuel_for e) s0 wl s1 evs F G0 eq_refl E) as AC.
   assert (K : (Z.to_nat r < length (s_runs g))%nat) by (apply nth_error_Some; congruence).
-  unfold GInv. simpl. rewrite !length_upd_nth. split; [|split; [exact TG | reflexivity]].
-  split; [exact (exec_caps e r fwd (fuel_for e) s0 wl s1 evs R F G0 CK E)|].
+  rewrite !length_upd_nth.
+  split; [exact (exec_caps e locked r fwd (fuel_for e) s0 wl s1 evs R F G0 CK E)|].
+  split; [apply Forall_app; split; [exact T|]; apply (tag_is_lt r); [lia | exact TG]|].
   split.
-  - apply Forall_app. split; [exact T|]. apply (tag_is_lt r); [lia | exact TG].
-  - intros k fwd' idx' Hk.
+  { intros k fwd' idx' Hk.
     destruct (Nat.eq_dec (Z.to_nat r) k) as [<-|NE].
     + rewrite nth_error_upd_same in Hk by exact K. inv Hk.
-      rewrite Z2Nat.id by lia. split; [exact N1 | exact L1].
+      rewrite Z2Nat.id by lia. rewrite Nat.eqb_refl. split; [exact N1 | exact L1].
     + rewrite nth_error_upd_other in Hk by exact NE.
       destruct (O _ _ _ (not_eq_sym NE) Hk) as [A B]. split; [exact A|].
       assert (NZ : Z.of_nat k <> r) by (intro X; apply NE; rewrite <- X; apply Nat2Z.id).
-      rewrite proj_app, (proj_other r _ _ TG NZ), app_nil_r. exact B.
+      rewrite proj_app, (proj_other r _ _ TG NZ), app_nil_r.
+      destruct (Nat.eqb_spec k (Z.to_nat r)); [congruence | exact B]. }
+  split; [exact TG|]. split; [reflexivity|].
+  split; [intros k NE; apply nth_error_upd_other; congruence|].
+  destruct (b_susp s1) as [[w q]|]; [|split; exact I].
+  destruct SU as (A & B & C & D). split; [|exact AC].
+  split; [reflexivity|]. split; [exact D|]. split; [exact B|].
+  exists (b_idx s1). split; [apply nth_error_upd_same; exact K|]. split; [exact A | exact C].
 Qed.
 
-Lemma new_run_inv e g log fwd g' evs :
-  GInv e g log -> new_run e g fwd = (g', evs) ->
-  GInv e g' (log ++ evs) /\ Forall (tag_is (Z.of_nat (length (s_runs g)))) evs /\
-  length (s_runs g') = S (length (s_runs g)).
+Lemma new_run_invW e g log (Wf : nat -> list act) fwd g' evs :
+  caps_ok (s_caps g) -> Forall (tag_lt (Z.of_nat (length (s_runs g)))) log ->
+  (forall k fwd' idx', nth_error (s_runs g) k = Some (fwd', idx') ->
+     near e fwd' idx' /\ RunInv e fwd' (proj (Z.of_nat k) log) idx' (Wf k)) ->
+  new_run e g fwd = (g', evs) ->
+  caps_ok (s_caps g') /\
+  Forall (tag_lt (Z.of_nat (length (s_runs g')))) (log ++ evs) /\
+  (forall k fwd' idx', nth_error (s_runs g') k = Some (fwd', idx') ->
+     near e fwd' idx' /\
+     RunInv e fwd' (proj (Z.of_nat k) (log ++ evs)) idx' (if Nat.eqb k (length (s_runs g)) then [] else Wf k)) /\
+  Forall (tag_is (Z.of_nat (length (s_runs g)))) evs /\
+  length (s_runs g') = S (length (s_runs g)) /\
+  (forall k, (k < length (s_runs g))%nat -> nth_error (s_runs g') k = nth_error (s_runs g) k) /\
+  s_susp g' = None.
 Proof.
-  intros (CK & T & O) H. unfold new_run in H.
-  eapply burst_inv in H; simpl.
-  - destruct H as (A & B & C). simpl in C. rewrite app_length in C. simpl in C.
-    split; [exact A|]. split; [exact B | lia].
+  intros CK T O H. unfold new_run in H.
+  eapply (burst_inv e true (push_run g (fwd, first_idx e fwd)) log Wf) in H; simpl.
+  - destruct H as (A & B & C & D & E & F & G & _). simpl in *. rewrite app_length in *. simpl in *. rewrite Nat2Z.id in *.
+    split; [exact A|]. split; [exact B|]. split; [exact C|]. split; [exact D|].
+    split; [lia|]. split.
+    + intros k Hk. rewrite F by lia. apply nth_error_app1. exact Hk.
+    + destruct (s_susp g') as [[[r1 w1] q1]|]; [|reflexivity]. destruct G as (_ & X & _). discriminate.
   - lia.
   - exact CK.
   - simpl. eapply tag_lt_weaken; [|exact T]. rewrite app_length. simpl. lia.
@@ -961,13 +1127,170 @@ Proof.
   - rewrite (proj_fresh _ _ T). apply runinv_init.
 Qed.
 
+Lemma new_run_inv e g log fwd g' evs :
+  GInv e g log -> new_run e g fwd = (g', evs) ->
+  GInv e g' (log ++ evs) /\ Forall (tag_is (Z.of_nat (length (s_runs g)))) evs /\
+  length (s_runs g') = S (length (s_runs g)).
+Proof.
+  intros (CK & T & O & _) H.
+  destruct (new_run_invW e g log (fun _ => []) fwd g' evs CK T O H) as (A & B & C & D & E & _ & G).
+  split; [|split; assumption].
+  split; [exact A|]. split; [exact B|]. split; [|exact G].
+  intros k fwd' idx' Hk. destruct (C _ _ _ Hk) as [X Y]. split; [exact X|].
+  destruct (Nat.eqb k (length (s_runs g))); exact Y.
+Qed.
+
 Lemma ginv_set_app e g log a : GInv e g log -> GInv e (set_app g a) log.
 Proof. intro H. exact H. Qed.
+
+(* what is pending behind an accepted request *)
+Definition pend (g : st) : option (Z * list act) :=
+  match s_susp g with Some (r, wl, _) => Some (r, wl) | None => None end.
+
+(* the state between two bursts of one operation *)
+Definition SInv (e : env) (n : nat) (g : st) (log : list ev) : Prop :=
+  caps_ok (s_caps g) /\ Forall (tag_lt (Z.of_nat (length (s_runs g)))) log /\
+  match s_susp g with
+  | None => forall k fwd idx, nth_error (s_runs g) k = Some (fwd, idx) ->
+              near e fwd idx /\ RunInv e fwd (proj (Z.of_nat k) log) idx []
+  | Some (r, wl, q) =>
+      0 <= r /\ no_do wl = true /\ accepted (s_app g) q = true /\
+      (forall k fwd idx, nth_error (s_runs g) k = Some (fwd, idx) ->
+         near e fwd idx /\ RunInv e fwd (proj (Z.of_nat k) log) idx (if Nat.eqb k (Z.to_nat r) then wl else [])) /\
+      exists fwd idx, nth_error (s_runs g) (Z.to_nat r) = Some (fwd, idx) /\ (phi e fwd idx wl < n)%nat /\
+                      (phi e fwd idx wl <= fuel_for e)%nat
+  end.
+
+(* one round of [settle]: the requested run, then the rest of the suspended burst *)
+Lemma settle_step e n g log r wl q g1 e1 :
+  SInv e (S n) g log -> s_susp g = Some (r, wl, q) ->
+  new_run e (set_app g (if q then 2 else 4)) q = (g1, e1) ->
+  exists fwd idx,
+    nth_error (s_runs g) (Z.to_nat r) = Some (fwd, idx) /\ nth_error (s_runs g1) (Z.to_nat r) = Some (fwd, idx) /\
+    0 <= r /\ near e fwd idx /\ no_do wl = true /\ (phi e fwd idx wl <= fuel_for e)%nat /\
+    accepted (s_app g) q = true /\
+    GInv e g1 (log ++ e1) /\
+    forall g2 e2, burst e false g1 r fwd idx wl = (g2, e2) -> SInv e n g2 ((log ++ e1) ++ e2).
+Proof.
+  intros (CK & T & S) SG E1. rewrite SG in S.
+  destruct S as (R & ND & AC & O & fwd & idx & Hr & PL & PF).
+  assert (KR : (Z.to_nat r < length (s_runs g))%nat) by (apply nth_error_Some; congruence).
+  destruct (new_run_invW e (set_app g (if q then 2 else 4)) log
+              (fun k => if Nat.eqb k (Z.to_nat r) then wl else []) q g1 e1 CK T O E1)
+    as (CK1 & T1 & O1 & TG1 & L1 & KP1 & SN1).
+  simpl in *.
+  assert (NR : Nat.eqb (Z.to_nat r) (length (s_runs g)) = false) by (apply Nat.eqb_neq; lia).
+  assert (DROP : forall k fwd' idx', nth_error (s_runs g1) k = Some (fwd', idx') ->
+                   near e fwd' idx' /\ RunInv e fwd' (proj (Z.of_nat k) (log ++ e1)) idx' []).
+  { intros k fwd' idx' Hk. destruct (O1 _ _ _ Hk) as [X Y]. split; [exact X|].
+    destruct (Nat.eqb k (length (s_runs g))); [exact Y|].
+    destruct (Nat.eqb k (Z.to_nat r)); [|exact Y].
+    eapply runinv_wl; [|exact Y]. simpl. apply no_do_head. exact ND. }
+  assert (Hr1 : nth_error (s_runs g1) (Z.to_nat r) = Some (fwd, idx)) by (rewrite (KP1 _ KR); exact Hr).
+  exists fwd, idx. split; [exact Hr|]. split; [exact Hr1|]. split; [exact R|].
+  split; [exact (proj1 (O _ _ _ Hr))|]. split; [exact ND|]. split; [exact PF|]. split; [exact AC|].
+  split; [exact (conj CK1 (conj T1 (conj DROP SN1)))|].
+  intros g2 e2 E2.
+  assert (RI : RunInv e fwd (proj r (log ++ e1)) idx wl).
+  { destruct (O1 _ _ _ Hr1) as [_ Y]. rewrite NR, Nat.eqb_refl, Z2Nat.id in Y by exact R. exact Y. }
+  destruct (burst_inv e false g1 (log ++ e1) (fun _ => []) r fwd idx idx wl g2 e2 R CK1 T1
+              (fun k f i _ Hk => DROP k f i Hk) Hr1 (proj1 (O _ _ _ Hr)) (no_do_tl _ ND) PF RI E2)
+    as (CK2 & T2 & O2 & _ & L2 & KP2 & SU2 & AC2).
+  split; [exact CK2|]. split; [exact T2|].
+  destruct (s_susp g2) as [[[r2 w2] q2]|].
+  + destruct SU2 as (-> & _ & ND2 & idx2 & Hr2 & RI2 & PD). split; [exact R|]. split; [exact ND2|].
+    split; [exact AC2|]. split.
+    * intros k f i Hk. destruct (O2 _ _ _ Hk) as [X Y]. split; [exact X|].
+      destruct (Nat.eqb_spec k (Z.to_nat r)) as [->|]; [|exact Y].
+      rewrite Hr2 in Hk. inv Hk. rewrite Z2Nat.id by exact R. exact RI2.
+    * exists fwd, idx2. split; [exact Hr2|]. split; lia.
+  + intros k f i Hk. destruct (O2 _ _ _ Hk) as [X Y]. split; [exact X|].
+    destruct (Nat.eqb k (Z.to_nat r)); exact Y.
+Qed.
+
+Lemma sinv_none e n g log : SInv e n g log -> s_susp g = None -> GInv e g log.
+Proof. intros (CK & T & S) SG. rewrite SG in S. exact (conj CK (conj T (conj S SG))). Qed.
+
+Lemma sinv_fuel e g log r wl q : SInv e 0 g log -> s_susp g = Some (r, wl, q) -> False.
+Proof. intros (_ & _ & S) SG. rewrite SG in S. destruct S as (_ & _ & _ & _ & fwd & idx & _ & X & _). lia. Qed.
+
+(* the requests accepted outside the lock are carried out; afterwards nothing is suspended.
+   Q: any further invariant that survives the requested run (HA) and the rest of the
+   suspended burst (HB); its first argument is the pending work *)
+Lemma settle_ind e (Q : option (Z * list act) -> st -> list ev -> Prop)
+  (HD : forall p g log, Q (Some p) g log -> Q None g log)
+  (HA : forall g log r wl q g1 e1,
+      Q (Some (r, wl)) g log -> s_susp g = Some (r, wl, q) -> accepted (s_app g) q = true ->
+      (exists fwd idx, nth_error (s_runs g) (Z.to_nat r) = Some (fwd, idx)) ->
+      new_run e (set_app g (if q then 2 else 4)) q = (g1, e1) -> Q (Some (r, wl)) g1 (log ++ e1))
+  (HB : forall g log r fwd idx wl g2 e2,
+      Q (Some (r, wl)) g log -> 0 <= r -> nth_error (s_runs g) (Z.to_nat r) = Some (fwd, idx) ->
+      near e fwd idx -> no_do wl = true -> (phi e fwd idx wl <= fuel_for e)%nat -> GInv e g log ->
+      burst e false g r fwd idx wl = (g2, e2) -> Q (pend g2) g2 (log ++ e2)) :
+  forall n g log g' evs,
+  SInv e n g log -> Q (pend g) g log ->
+  settle n e g = (g', evs) -> GInv e g' (log ++ evs) /\ Q None g' (log ++ evs).
+Proof.
+  induction n as [|n IH]; intros g log g' evs S HQ H.
+  - simpl in H. destruct (s_susp g) as [[[r wl] q]|] eqn:SG.
+    + destruct (sinv_fuel _ _ _ _ _ _ S SG).
+    + inv H. rewrite app_nil_r. split; [exact (sinv_none _ _ _ _ S SG)|].
+      unfold pend in HQ. rewrite SG in HQ. exact HQ.
+  - simpl in H. destruct (s_susp g) as [[[r wl] q]|] eqn:SG.
+    2:{ inv H. rewrite app_nil_r. split; [exact (sinv_none _ _ _ _ S SG)|].
+        unfold pend in HQ. rewrite SG in HQ. exact HQ. }
+    unfold pend in HQ. rewrite SG in HQ.
+    destruct (new_run e (set_app g (if q then 2 else 4)) q) as [g1 e1] eqn:E1.
+    destruct (settle_step e n g log r wl q g1 e1 S SG E1)
+      as (fwd & idx & Hr & Hr1 & R & N & ND & PF & AC & G1 & NEXT).
+    pose proof (HA g log r wl q g1 e1 HQ SG AC (ex_intro _ fwd (ex_intro _ idx Hr)) E1) as Q1.
+    destruct (s_dead g1).
+    { inv H. split; [exact G1|]. eapply HD. exact Q1. }
+    rewrite Hr1 in H.
+    destruct (burst e false g1 r fwd idx wl) as [g2 e2] eqn:E2.
+    destruct (settle n e g2) as [g3 e3] eqn:E3. inv H.
+    pose proof (HB g1 (log ++ e1) r fwd idx wl g2 e2 Q1 R Hr1 N ND PF G1 E2) as Q2.
+    rewrite !app_assoc.
+    eapply IH; [exact (NEXT _ _ eq_refl) | exact Q2 | exact E3].
+Qed.
+
+(* a fired continuation: the burst, then whatever it left suspended *)
+Lemma fire_sinv e g log r fwd idx i b g1 e1 :
+  GInv e g log -> 0 <= r -> nth_error (s_runs g) (Z.to_nat r) = Some (fwd, idx) ->
+  burst e false g r fwd idx [ANx i b] = (g1, e1) -> SInv e (fuel_for e) g1 (log ++ e1).
+Proof.
+  intros (CK & T & O & SN) NN Hr E1. destruct (O _ _ _ Hr) as [N L].
+  assert (RI : RunInv e fwd (proj r log) idx [ANx i b]).
+  { rewrite Z2Nat.id in L by exact NN. eapply runinv_wl; [|exact L]. reflexivity. }
+  destruct (burst_inv e false g log (fun _ => []) r fwd idx idx [ANx i b] g1 e1 NN CK T
+              (fun k f i' _ Hk => O k f i' Hk) Hr N eq_refl (phi_fire e fwd idx i b N) RI E1)
+    as (CK1 & T1 & O1 & _ & L1 & KP1 & SU1 & AC1).
+  split; [exact CK1|]. split; [exact T1|].
+  pose proof (phi_fire e fwd idx i b N) as PF.
+  destruct (s_susp g1) as [[[r1 w1] q1]|].
+  + destruct SU1 as (-> & _ & ND1 & idx1 & Hr1 & RI1 & PD). split; [exact NN|]. split; [exact ND1|].
+    split; [exact AC1|]. split.
+    * intros k' f i' Hk. destruct (O1 _ _ _ Hk) as [X Y]. split; [exact X|].
+      destruct (Nat.eqb_spec k' (Z.to_nat r)) as [->|]; [|exact Y].
+      rewrite Hr1 in Hk. inv Hk. rewrite Z2Nat.id by exact NN. exact RI1.
+    * exists fwd, idx1. split; [exact Hr1|]. split; lia.
+  + intros k' f i' Hk. destruct (O1 _ _ _ Hk) as [X Y]. split; [exact X|].
+    destruct (Nat.eqb k' (Z.to_nat r)); exact Y.
+Qed.
+
+Lemma settle_inv e n g log g' evs :
+  SInv e n g log -> settle n e g = (g', evs) -> GInv e g' (log ++ evs).
+Proof.
+  intros S H.
+  refine (proj1 (settle_ind e (fun _ _ _ => True) _ _ _ n g log g' evs S I H)); auto.
+Qed.
 
 Lemma do_op_inv e g log o g' evs :
   GInv e g log -> do_op e g o = (g', evs) -> GInv e g' (log ++ evs).
 Proof.
-  intros G H. destruct o as [m|a en et|k|ft| | |k b]; simpl in H;
+  intros G H. unfold do_op in H.
+  destruct (s_dead g); [inv H; rewrite app_nil_r; exact G|].
+  destruct o as [m|a en et|k|ft|cf cq| | |k b];
     try (inv H; rewrite app_nil_r; exact G).
   - destruct (is_app (e_mode e)).
     + destruct (s_app g =? 1); [|inv H; rewrite app_nil_r; exact G].
@@ -980,13 +1303,11 @@ Proof.
   - destruct (k <? 0); [inv H; rewrite app_nil_r; exact G|].
     destruct (nth_error (s_caps g) (Z.to_nat k)) as [[r i]|] eqn:Hc; [|inv H; rewrite app_nil_r; exact G].
     destruct (nth_error (s_runs g) (Z.to_nat r)) as [[fwd idx]|] eqn:Hr; [|inv H; rewrite app_nil_r; exact G].
-    destruct G as (CK & T & O). destruct (O _ _ _ Hr) as [N L].
     assert (NN : 0 <= r).
-    { apply nth_error_In in Hc. unfold caps_ok in CK. rewrite Forall_forall in CK. apply (CK _ Hc). }
-    refine (proj1 (burst_inv e g log r fwd idx idx [ANx i b] g' evs NN CK T _ Hr N eq_refl
-                             (phi_fire e fwd idx i b N) _ H)).
-    + intros k' fwd' idx' _ Hk. apply O. exact Hk.
-    + rewrite Z2Nat.id in L by exact NN. eapply runinv_wl; [|exact L]. reflexivity.
+    { destruct G as (CK & _). apply nth_error_In in Hc. unfold caps_ok in CK. rewrite Forall_forall in CK. apply (CK _ Hc). }
+    destruct (burst e false g r fwd idx [ANx i b]) as [g1 e1] eqn:E1.
+    destruct (settle (fuel_for e) e g1) as [g2 e2] eqn:E2. inv H.
+    rewrite app_assoc. eapply settle_inv; [|exact E2]. eapply fire_sinv; eauto.
 Qed.
 
 
@@ -1001,7 +1322,7 @@ Qed.
 
 Lemma ginv_init e : GInv e (init e) [].
 Proof.
-  split; [constructor|]. split; [constructor|]. intros k fwd idx H. destruct k; discriminate.
+  split; [constructor|]. split; [constructor|]. split; [|reflexivity]. intros k fwd idx H. destruct k; discriminate.
 Qed.
 
 Lemma ginv_final ops : GInv (env_of ops) (final ops) (concat (run ops)).
@@ -1016,7 +1337,7 @@ Lemma run_link ops r fwd idx :
   near (env_of ops) fwd idx /\ RunInv (env_of ops) fwd (trace ops r) idx [].
 Proof.
   unfold run_info, trace. destruct (Z.ltb_spec r 0) as [|NN]; [discriminate|]. intro H.
-  destruct (ginv_final ops) as (_ & _ & O). specialize (O _ _ _ H).
+  destruct (ginv_final ops) as (_ & _ & O & _). specialize (O _ _ _ H).
   rewrite Z2Nat.id in O by exact NN. exact O.
 Qed.
 
@@ -1119,15 +1440,27 @@ Section RunApp.
       + unfold finish_effect in H. rewrite andb_true_r in H.
         destruct (is_app (e_mode e)).
         * destruct fwd.
-          -- inv H. simpl. split; [intros _; split; discriminate|].
-             unfold proj. simpl. rewrite Z.eqb_refl. simpl. unfold n_fin_true. simpl. lia.
-          -- destruct (b_cleaned s); [destruct (unwind r wl)|]; inv H; simpl;
-               (split; [intros _; split; discriminate | lia]).
-        * inv H. simpl. split; [auto | lia].
+          -- split_callback H.
+             ++ inv H. simpl. split; [intros _; split; discriminate|].
+                unfold proj. simpl. rewrite Z.eqb_refl. simpl. unfold n_fin_true. simpl. lia.
+             ++ inv H. simpl. split; [intros _; destruct req; split; discriminate|].
+                unfold proj. simpl. rewrite Z.eqb_refl. simpl. unfold n_fin_true. simpl. destruct req; simpl; lia.
+             ++ inv H. simpl. split; [intros _; split; discriminate|].
+                unfold proj. simpl. rewrite Z.eqb_refl. simpl. unfold n_fin_true. simpl. lia.
+          -- split_callback H.
+             ++ destruct (b_cleaned s); [destruct (unwind r wl)|]; inv H; simpl;
+                  (split; [intros _; split; discriminate | lia]).
+             ++ inv H. simpl. split; [intros _; destruct req; split; discriminate | destruct req; simpl; lia].
+             ++ inv H. simpl. split; [intros _; split; discriminate | lia].
+        * split_callback H; inv H; simpl; try (split; [auto | lia]).
+          split; [intros _; destruct req; split; discriminate | destruct req; simpl; lia].
       + destruct ((b_idx s <? 0) || (nmods e <=? b_idx s)).
         * destruct (unwind r wl). inv H. split; [auto | lia].
         * inv H. simpl. split; [auto | lia].
-    - destruct b; inv H; simpl; (split; [auto | lia]).
+    - destruct b.
+      + inv H; simpl; (split; [auto | lia]).
+      + split_callback H; inv H; simpl; try (split; [auto | lia]).
+        split; [intros _; destruct req; split; discriminate | destruct req; simpl; lia].
     - inv H. split; [auto | lia].
   Qed.
 
@@ -1148,19 +1481,22 @@ Section RunApp.
   Qed.
 End RunApp.
 
-Lemma burst_app e g r fwd idx wl g' evs :
+Lemma burst_app e locked g r fwd idx wl g' evs :
   near e fwd idx -> wl_ok wl -> (phi e fwd idx wl <= fuel_for e)%nat ->
-  burst e g r fwd idx wl = (g', evs) ->
+  burst e locked g r fwd idx wl = (g', evs) ->
   (exists idx', s_runs g' = upd_nth (Z.to_nat r) (fwd, idx') (s_runs g)) /\
   (app_started (s_app g) -> app_started (s_app g')) /\
-  (b2n (Z.eqb (s_app g') 3) <= b2n (Z.eqb (s_app g) 3) + (if fwd then n_fin_true (proj r evs) else 0))%nat.
+  (b2n (Z.eqb (s_app g') 3) <= b2n (Z.eqb (s_app g) 3) + (if fwd then n_fin_true (proj r evs) else 0))%nat /\
+  (s_dead g' = true -> s_app g' = 2 \/ s_app g' = 4).
 Proof.
   intros N W F H. unfold burst in H.
-  set (s0 := {| b_idx := idx; b_app := s_app g; b_cleaned := s_cleaned g; b_live := s_live g; b_prov := s_prov g; b_half := s_half g; b_caps := s_caps g |}) in *.
+  set (s0 := {| b_idx := idx; b_app := s_app g; b_cleaned := s_cleaned g; b_live := s_live g; b_bound := s_bound g; b_pub := s_pub g;
+                b_prov := s_prov g; b_half := s_half g; b_caps := s_caps g; b_susp := None; b_dead := false |}) in *.
   destruct (exec e locked r fwd (fuel_for e) s0 wl) as [s1 evs1] eqn:E. inv H. simpl.
   assert (G0 : Good e fwd s0 wl) by (split; assumption).
-  destruct (exec_app e r fwd (fuel_for e) s0 wl s1 evs F G0 E) as [A B].
-  split; [eexists; reflexivity|]. split; [exact A | exact B].
+  destruct (exec_app e locked r fwd (fuel_for e) s0 wl s1 evs F G0 E) as [A B].
+  split; [eexists; reflexivity|]. split; [exact A|]. split; [exact B|].
+  exact (exec_dead e locked r fwd (fuel_for e) s0 wl s1 evs F G0 eq_refl E).
 Qed.
 
 Lemma n_runs_app d l x : n_runs d (l ++ [x]) = (n_runs d l + b2n (Bool.eqb (fst x) d))%nat.
@@ -1199,80 +1535,118 @@ Definition AInv (g : st) (log : list ev) : Prop :=
   ((s_app g = 0 \/ s_app g = 1) -> s_runs g = []) /\
   (app_started (s_app g) -> n_runs true (s_runs g) = 1%nat) /\
   (forall k idx, nth_error (s_runs g) k = Some (true, idx) ->
-     (n_runs false (s_runs g) + b2n (Z.eqb (s_app g) 3) <= n_fin_true (proj (Z.of_nat k) log))%nat).
+     (n_runs false (s_runs g) + b2n (Z.eqb (s_app g) 3) <= n_fin_true (proj (Z.of_nat k) log))%nat) /\
+  (s_dead g = true -> s_app g = 2 \/ s_app g = 4).
 
 Lemma started_dec a : app_started a \/ (a = 0 \/ a = 1).
 Proof. unfold app_started. lia. Qed.
+
+(* an accepted Stop: a new stop run, paid for by the finish(true) that made the state Normal *)
+Lemma stop_run_ainv e g log g' evs :
+  AInv g log -> s_app g = 3 -> new_run e (set_app g 4) false = (g', evs) -> AInv g' (log ++ evs).
+Proof.
+  intros A0 E3 H. pose proof A0 as (Ab & Ad & Ac & _).
+  assert (T1 : n_runs true (s_runs g) = 1%nat) by (apply Ad; split; lia).
+  unfold new_run in H. simpl in H.
+  apply burst_app in H; [|apply near_first | reflexivity | apply phi_start].
+  destruct H as ([idx' R] & S & B & DD). cbn [s_runs s_app set_app push_run] in *.
+  change (nmods e - 1) with (first_idx e false) in *. change (4 =? 3) with false in B. simpl in B.
+  assert (S' : app_started (s_app g')) by (apply S; split; discriminate).
+  rewrite Nat2Z.id in R.
+  assert (Hlast : nth_error (s_runs g ++ [(false, first_idx e false)]) (length (s_runs g)) = Some (false, first_idx e false)).
+  { rewrite nth_error_app2 by lia. rewrite Nat.sub_diag. reflexivity. }
+  split; [|split; [|split; [|exact DD]]].
+  + intros [X|X]; destruct S'; contradiction.
+  + intros _. rewrite R, (n_runs_upd _ _ _ _ _ _ Hlast), n_runs_app. simpl. lia.
+  + intros k idx Hk. rewrite R in Hk.
+    destruct (Nat.eq_dec (length (s_runs g)) k) as [<-|NE].
+    * rewrite nth_error_upd_same in Hk by (rewrite app_length; simpl; lia). discriminate.
+    * rewrite nth_error_upd_other in Hk by exact NE.
+      assert (KL : (k < length (s_runs g))%nat).
+      { assert (KL' : (k < length (s_runs g ++ [(false, first_idx e false)]))%nat) by (apply nth_error_Some; congruence).
+        rewrite app_length in KL'. simpl in KL'. lia. }
+      rewrite nth_error_app1 in Hk by exact KL.
+      specialize (Ac _ _ Hk). rewrite E3 in Ac. simpl in Ac.
+      rewrite R, (n_runs_upd _ _ _ _ _ _ Hlast), n_runs_app. simpl.
+      rewrite proj_app, n_fin_true_app. lia.
+Qed.
+
+(* a burst of an existing run *)
+Lemma fire_ainv e locked g log r fwd idx wl g' evs :
+  AInv g log -> 0 <= r -> nth_error (s_runs g) (Z.to_nat r) = Some (fwd, idx) ->
+  near e fwd idx -> wl_ok wl -> (phi e fwd idx wl <= fuel_for e)%nat ->
+  burst e locked g r fwd idx wl = (g', evs) -> AInv g' (log ++ evs).
+Proof.
+  intros (Ab & Ad & Ac & _) NN Hr N W PF H.
+  apply burst_app in H; [|exact N | exact W | exact PF].
+  destruct H as ([idx' R] & S & B & DD).
+  assert (S0 : app_started (s_app g)).
+  { destruct (started_dec (s_app g)) as [X|X]; [exact X|]. rewrite (Ab X) in Hr. destruct (Z.to_nat r); discriminate. }
+  pose proof (Ad S0) as T1.
+  split; [|split; [|split; [|exact DD]]].
+  + intros X. destruct (S S0). destruct X; contradiction.
+  + intros _. rewrite R, (n_runs_upd _ _ _ _ _ _ Hr). exact T1.
+  + intros k' idx'' Hk. rewrite R in Hk. rewrite R, (n_runs_upd _ _ _ _ _ _ Hr).
+    rewrite proj_app, n_fin_true_app.
+    destruct (Nat.eq_dec (Z.to_nat r) k') as [<-|NE].
+    * rewrite nth_error_upd_same in Hk by (apply nth_error_Some; congruence). inv Hk.
+      specialize (Ac _ _ Hr). rewrite Z2Nat.id in * by exact NN. lia.
+    * rewrite nth_error_upd_other in Hk by exact NE.
+      specialize (Ac _ _ Hk).
+      destruct fwd.
+      -- exfalso. apply NE. eapply n_runs_unique; [|exact Hr | exact Hk]. lia.
+      -- lia.
+Qed.
+
+Lemma settle_ainv e n g log g' evs :
+  SInv e n g log -> AInv g log -> settle n e g = (g', evs) -> AInv g' (log ++ evs).
+Proof.
+  intros S A H.
+  refine (proj2 (settle_ind e (fun _ g log => AInv g log) _ _ _ n g log g' evs S A H)).
+  - auto.
+  - intros g0 log0 r wl q g1 e1 A0 SG AC (fwd & idx & Hr) E1.
+    destruct q; simpl in AC.
+    + exfalso. destruct A0 as (Ab & _). apply Z.eqb_eq in AC.
+      rewrite (Ab (or_intror AC)) in Hr. destruct (Z.to_nat r); discriminate.
+    + apply Z.eqb_eq in AC. eapply stop_run_ainv; eauto.
+  - intros g0 log0 r fwd idx wl g2 e2 A0 R Hr N ND PF _ E2.
+    eapply fire_ainv; eauto. apply no_do_tl. exact ND.
+Qed.
 
 Lemma do_op_ainv e g log o g' evs :
   is_app (e_mode e) = true -> GInv e g log -> AInv g log ->
   do_op e g o = (g', evs) -> AInv g' (log ++ evs).
 Proof.
-  intros M G A0 H. pose proof A0 as (Ab & Ad & Ac).
-  destruct o as [m|a en et|k|ft| | |k b]; simpl in H;
+  intros M G A0 H. pose proof A0 as (Ab & Ad & Ac & Ae). unfold do_op in H.
+  destruct (s_dead g); [inv H; rewrite app_nil_r; exact A0|].
+  destruct o as [m|a en et|k|ft|cf cq| | |k b];
     try (inv H; rewrite app_nil_r; exact A0); rewrite ?M in H.
   - (* OStart *)
     destruct (Z.eqb_spec (s_app g) 1) as [E1|]; [|inv H; rewrite app_nil_r; exact A0].
     assert (R0 : s_runs g = []) by (apply Ab; auto).
     unfold new_run in H. simpl in H. rewrite R0 in H. simpl in H.
     apply burst_app in H; [|apply near_first | reflexivity | apply phi_start].
-    destruct H as ([idx' R] & S & B). simpl in *.
+    destruct H as ([idx' R] & S & B & DD). simpl in *. rewrite R0 in R. simpl in R.
     assert (S' : app_started (s_app g')) by (apply S; split; discriminate).
-    unfold AInv. rewrite R. split; [|split].
+    unfold AInv. rewrite R. split; [|split; [|split; [|exact DD]]].
     + intros [X|X]; destruct S'; contradiction.
     + intros _. reflexivity.
     + intros [|k] idx Hk; simpl in Hk; [|destruct k; discriminate].
       simpl. rewrite proj_app, n_fin_true_app. unfold n_runs. simpl. lia.
   - (* OStop *)
     destruct (Z.eqb_spec (s_app g) 3) as [E3|]; [|inv H; rewrite app_nil_r; exact A0].
-    assert (T1 : n_runs true (s_runs g) = 1%nat) by (apply Ad; split; lia).
-    unfold new_run in H. simpl in H.
-    apply burst_app in H; [|apply near_first | reflexivity | apply phi_start].
-    destruct H as ([idx' R] & S & B). cbn [s_runs s_app set_app] in *.
-    change (nmods e - 1) with (first_idx e false) in *. change (4 =? 3) with false in B. simpl in B.
-    assert (S' : app_started (s_app g')) by (apply S; split; discriminate).
-    rewrite Nat2Z.id in R.
-    assert (Hlast : nth_error (s_runs g ++ [(false, first_idx e false)]) (length (s_runs g)) = Some (false, first_idx e false)).
-    { rewrite nth_error_app2 by lia. rewrite Nat.sub_diag. reflexivity. }
-    split; [|split].
-    + intros [X|X]; destruct S'; contradiction.
-    + intros _. rewrite R, (n_runs_upd _ _ _ _ _ _ Hlast), n_runs_app. simpl. lia.
-    + intros k idx Hk. rewrite R in Hk.
-      destruct (Nat.eq_dec (length (s_runs g)) k) as [<-|NE].
-      * rewrite nth_error_upd_same in Hk by (rewrite app_length; simpl; lia). discriminate.
-      * rewrite nth_error_upd_other in Hk by exact NE.
-        assert (KL : (k < length (s_runs g))%nat).
-        { assert (KL' : (k < length (s_runs g ++ [(false, first_idx e false)]))%nat) by (apply nth_error_Some; congruence).
-          rewrite app_length in KL'. simpl in KL'. lia. }
-        rewrite nth_error_app1 in Hk by exact KL.
-        specialize (Ac _ _ Hk). simpl in Ac.
-        rewrite R, (n_runs_upd _ _ _ _ _ _ Hlast), n_runs_app. simpl.
-        rewrite proj_app, n_fin_true_app. lia.
+    eapply stop_run_ainv; eauto.
   - (* OFire *)
     destruct (k <? 0); [inv H; rewrite app_nil_r; exact A0|].
     destruct (nth_error (s_caps g) (Z.to_nat k)) as [[r i]|] eqn:Hc; [|inv H; rewrite app_nil_r; exact A0].
     destruct (nth_error (s_runs g) (Z.to_nat r)) as [[fwd idx]|] eqn:Hr; [|inv H; rewrite app_nil_r; exact A0].
-    destruct G as (CK & T & O). destruct (O _ _ _ Hr) as [N _].
+    pose proof G as (CK & T & O & SN). destruct (O _ _ _ Hr) as [N _].
     assert (NN : 0 <= r).
     { apply nth_error_In in Hc. unfold caps_ok in CK. rewrite Forall_forall in CK. apply (CK _ Hc). }
-    apply burst_app in H; [|exact N | reflexivity | apply phi_fire; exact N].
-    destruct H as ([idx' R] & S & B).
-    assert (S0 : app_started (s_app g)).
-    { destruct (started_dec (s_app g)) as [X|X]; [exact X|]. rewrite (Ab X) in Hr. destruct (Z.to_nat r); discriminate. }
-    pose proof (Ad S0) as T1.
-    split; [|split].
-    + intros X. destruct (S S0). destruct X; contradiction.
-    + intros _. rewrite R, (n_runs_upd _ _ _ _ _ _ Hr). exact T1.
-    + intros k' idx'' Hk. rewrite R in Hk. rewrite R, (n_runs_upd _ _ _ _ _ _ Hr).
-      rewrite proj_app, n_fin_true_app.
-      destruct (Nat.eq_dec (Z.to_nat r) k') as [<-|NE].
-      * rewrite nth_error_upd_same in Hk by (apply nth_error_Some; congruence). inv Hk.
-        specialize (Ac _ _ Hr). rewrite Z2Nat.id in * by exact NN. lia.
-      * rewrite nth_error_upd_other in Hk by exact NE.
-        specialize (Ac _ _ Hk).
-        destruct fwd.
-        -- exfalso. apply NE. eapply n_runs_unique; [|exact Hr | exact Hk]. lia.
-        -- lia.
+    destruct (burst e false g r fwd idx [ANx i b]) as [g1 e1] eqn:E1.
+    destruct (settle (fuel_for e) e g1) as [g2 e2] eqn:E2. inv H.
+    rewrite app_assoc. eapply settle_ainv; [eapply fire_sinv; eauto | | exact E2].
+    eapply fire_ainv; eauto. reflexivity. apply phi_fire. exact N.
 Qed.
 
 Lemma run_from_ainv e ops : forall g log g' xs,
@@ -1293,9 +1667,10 @@ Proof.
   intro M. unfold final, run.
   destruct (run_from (env_of ops) (init (env_of ops)) ops) as [g xs] eqn:E. simpl.
   apply (run_from_ainv _ _ _ [] _ _ M (ginv_init _)) in E; [exact E|].
-  unfold init. split; [reflexivity|]. split.
-  - intros [A B]. simpl in *. destruct (e_mode (env_of ops)) as [|[|]|]; simpl in *; lia.
+  unfold init. split; [reflexivity|]. split; [|split].
+  - intros [A B]. simpl in *. destruct (e_mode (env_of ops)) as [|[|]| |]; simpl in *; lia.
   - intros k idx H. destruct k; discriminate.
+  - discriminate.
 Qed.
 
 Lemma app_single_start ops :
@@ -1314,7 +1689,7 @@ Lemma app_stop_needs_success ops :
   (n_runs true (s_runs (final ops)) = 0%nat ->
      n_runs false (s_runs (final ops)) = 0%nat /\ s_app (final ops) <> 3).
 Proof.
-  intro M. destruct (ainv_final _ M) as (Ab & Ad & Ac). split.
+  intro M. destruct (ainv_final _ M) as (Ab & Ad & Ac & _). split.
   - intros r idx H. unfold run_info in H. destruct (Z.ltb_spec r 0); [discriminate|].
     specialize (Ac _ _ H). rewrite Z2Nat.id in Ac by lia. exact Ac.
   - intro Z0. destruct (started_dec (s_app (final ops))) as [X|X].
@@ -1372,16 +1747,22 @@ Lemma app_guard pre :
      length (s_runs (final (pre ++ [OStop]))) = S (length (s_runs (final pre))) /\
      s_app (final (pre ++ [OStop])) <> 3).
 Proof.
-  intro M. split; [|split; [|split]].
-  - intro N. destruct (final_snoc pre OStart eq_refl) as [A B]. rewrite A, B. simpl. rewrite M.
+  intro M.
+  assert (ND : s_app (final pre) = 1 \/ s_app (final pre) = 3 -> s_dead (final pre) = false).
+  { intro X. destruct (ainv_final _ M) as (_ & _ & _ & Ae).
+    destruct (s_dead (final pre)); [|reflexivity]. destruct (Ae eq_refl); lia. }
+  split; [|split; [|split]].
+  - intro N. destruct (final_snoc pre OStart eq_refl) as [A B]. rewrite A, B. unfold do_op.
+    destruct (s_dead (final pre)); [auto|]. rewrite M.
     destruct (Z.eqb_spec (s_app (final pre)) 1); [contradiction|]. auto.
-  - intro N. destruct (final_snoc pre OStop eq_refl) as [A B]. rewrite A, B. simpl. rewrite M.
+  - intro N. destruct (final_snoc pre OStop eq_refl) as [A B]. rewrite A, B. unfold do_op.
+    destruct (s_dead (final pre)); [auto|]. rewrite M.
     destruct (Z.eqb_spec (s_app (final pre)) 3); [contradiction|]. auto.
   - intro E1. destruct (ainv_final _ M) as (Ab & _ & _).
     assert (R0 : s_runs (final pre) = []) by (apply Ab; auto).
     split; [exact R0|].
     destruct (final_snoc pre OStart eq_refl) as [A _].
-    unfold run_info. rewrite A. simpl. rewrite M, E1. simpl.
+    unfold run_info. rewrite A. unfold do_op. rewrite (ND (or_introl E1)), M, E1. simpl.
     destruct (new_run (env_of pre) (set_app (final pre) 2) true) as [g' evs] eqn:E.
     pose proof (ginv_final pre) as G.
     destruct (new_run_inv _ _ _ _ _ _ (ginv_set_app _ _ _ 2 G) E) as (_ & _ & L).
@@ -1391,13 +1772,13 @@ Proof.
     + unfold new_run in E. apply burst_app in E; [|apply near_first | reflexivity | apply phi_start].
       destruct E as (_ & S & _). simpl in S. destruct S as [_ S]; [split; discriminate | exact S].
   - intro E3.
-    destruct (final_snoc pre OStop eq_refl) as [A _]. rewrite A. simpl. rewrite M, E3. simpl.
+    destruct (final_snoc pre OStop eq_refl) as [A _]. rewrite A. unfold do_op. rewrite (ND (or_intror E3)), M, E3. simpl.
     destruct (new_run (env_of pre) (set_app (final pre) 4) false) as [g' evs] eqn:E.
     pose proof (ginv_final pre) as G.
     destruct (new_run_inv _ _ _ _ _ _ (ginv_set_app _ _ _ 4 G) E) as (_ & _ & L).
     simpl in L. simpl. split; [exact L|].
     unfold new_run in E. apply burst_app in E; [|apply near_first | reflexivity | apply phi_start].
-    destruct E as (_ & _ & B). simpl in B. change (4 =? 3) with false in B. simpl in B.
+    destruct E as (_ & _ & B & _). simpl in B. change (4 =? 3) with false in B. simpl in B.
     destruct (Z.eqb_spec (s_app g') 3); [simpl in B; lia | assumption].
 Qed.
 
@@ -1441,15 +1822,15 @@ Lemma cluster_async_frame enable new init fetch watch register keepalive watch' 
 Proof. destruct enable, new, init, fetch, watch, register, keepalive, watch', keepalive'; reflexivity. Qed.
 
 (* as plugged into the list machine, in every environment (any set of declared faults) *)
-Lemma shipped_entry_once e fwd live prov half k :
+Lemma shipped_entry_once e fwd live bound prov half k :
   shipped k = true -> (k = KActor -> fwd = false -> live = true) ->
   (k = KCluster -> fwd = false -> half = false) ->
-  exists b, entry_beh e fwd live prov half k = Beh [b] false.
+  exists b, entry_beh e fwd live bound prov half k = Beh [b] false.
 Proof.
   intros S L Hh. destruct k as [st sp| | |]; try discriminate; simpl.
   - destruct fwd; eexists; reflexivity.
   - destruct fwd.
-    + destruct (info_ok e), (listen_ok e); eexists; reflexivity.
+    + destruct (info_ok e), (listen_ok e bound); eexists; reflexivity.
     + rewrite (L eq_refl eq_refl). eexists; reflexivity.
   - destruct fwd.
     + destruct (e_enable e), (new_ok e), (init_ok e), (fetch_ok e), (watch_ok e), (register_ok e), (keepalive_ok e);
@@ -1592,9 +1973,9 @@ Proof.
   simpl in H. apply nth_error_nth'. lia.
 Qed.
 
-Lemma shipped_calls e fwd live prov half k :
-  shipped k = true -> (length (calls_of (entry_beh e fwd live prov half k)) <= 1)%nat.
-Proof. intro S. pose proof (calls_bound e fwd live prov half k) as B. destruct k; simpl in *; try discriminate; exact B. Qed.
+Lemma shipped_calls e fwd live bound prov half k :
+  shipped k = true -> (length (calls_of (entry_beh e fwd live bound prov half k)) <= 1)%nat.
+Proof. intro S. pose proof (calls_bound e fwd live bound prov half k) as B. destruct k; simpl in *; try discriminate; exact B. Qed.
 
 Section Calls.
   Variables (e : env) (df : list bool) (r0 i0 : Z) (k0 : kind).
@@ -1611,79 +1992,97 @@ Section Calls.
   Proof. unfold ne. rewrite proj_app. apply n_enter_app. Qed.
 
   (* inside one burst of run r *)
+  Definition quiet_rest (wl0 : list act) : Prop :=
+    forall i k, kind_at e i = Some k -> shipped k = true -> cnt i wl0 = 0%nat.
   Definition CI (F : nat) (r : Z) (s : bst) (wl : list act) (acc : list ev) : Prop :=
     b_caps s = caps_of acc /\
     ustate e df false [] acc = (b_live s, b_half s) /\
-    (forall i k, kind_at e i = Some k -> shipped k = true -> cnt i (tl wl) = 0%nat) /\
+    quiet_rest (tl wl) /\
     (pair_mem r0 i0 (un acc) = false ->
-     (nn acc + (if Z.eqb r r0 then cnt i0 wl else 0) = ne acc + F)%nat).
+     (nn acc + (if Z.eqb r r0 then cnt i0 wl else 0) = ne acc + F)%nat) /\
+    match b_susp s with Some (wl0, _) => quiet_rest wl0 | None => True end.
 
   Lemma ci_quiet F r s a wl acc s' wl' evs :
     CI F r s (a :: wl) acc ->
     Forall not_enter evs -> b_caps s' = b_caps s -> b_live s' = b_live s -> b_half s' = b_half s ->
-    (forall i k, kind_at e i = Some k -> shipped k = true -> cnt i (tl wl') = 0%nat) ->
+    (b_susp s' = b_susp s \/ exists q, b_susp s' = Some (wl, q)) ->
+    quiet_rest (tl wl') ->
     (nn evs + (if Z.eqb r r0 then cnt i0 wl' else 0) = (if Z.eqb r r0 then cnt i0 (a :: wl) else 0))%nat -> ne evs = 0%nat ->
     CI F r s' wl' (acc ++ evs).
   Proof.
-    intros (C1 & C2 & C3 & C4) Q E1 E2 E3 H3 HN HE.
-    split; [|split; [|split]].
+    intros (C1 & C2 & C3 & C4 & C5) Q E1 E2 E3 E4 H3 HN HE.
+    split; [|split; [|split; [|split]]].
     - rewrite E1, C1, caps_of_app, (caps_of_quiet _ Q), app_nil_r. reflexivity.
     - rewrite ustate_app, C2. simpl. rewrite (ustate_quiet _ _ _ Q), E2, E3. reflexivity.
     - exact H3.
     - unfold un. rewrite unclaimed_app, C2. simpl. rewrite (unclaimed_quiet _ _ _ Q), app_nil_r.
       intro U. specialize (C4 U). rewrite nn_app, ne_app, HE. lia.
+    - destruct E4 as [-> | [q ->]]; [exact C5 | exact C3].
   Qed.
 
-  Lemma step_ci F r fwd s a wl acc s' wl' evs :
+  Lemma step_ci locked F r fwd s a wl acc s' wl' evs :
     dir_at df r = Some fwd ->
     Good e fwd s (a :: wl) -> CI F r s (a :: wl) acc ->
     step e locked r fwd a s wl = (s', wl', evs) -> CI F r s' wl' (acc ++ evs).
   Proof.
-    intros HD [N W] HC H. pose proof HC as (C1 & C2 & C3 & C4). simpl tl in C3. unfold step in H.
+    intros HD [N W] HC H. pose proof HC as (C1 & C2 & C3 & C4 & C5). simpl tl in C3. unfold step in H.
+    assert (Z0 : cnt i0 wl = 0%nat) by (apply (C3 i0 k0 Hk0 Hs0)).
     destruct a as [|i b|i p].
     - (* ADo *)
       destruct (past_end e fwd (b_idx s)) eqn:P.
       + destruct (finish_effect (e_mode e) fwd true (b_app s) (b_cleaned s)) as [[app cl] pan].
-        destruct pan.
-        * destruct (unwind r wl) as [wl1 x] eqn:U.
-          destruct (unwind_spec _ _ _ _ U) as (_ & _ & C). injection H as <- <- <-.
-          eapply ci_quiet; [exact HC | | reflexivity | reflexivity | reflexivity | | |].
-          -- repeat constructor. destruct C as [[j ->] | ->]; exact I.
-          -- intros j k Hk Hs. pose proof (cnt_tl j wl1). pose proof (cnt_unwind r j _ _ _ U).
-             specialize (C3 j k Hk Hs). lia.
-          -- pose proof (cnt_unwind r i0 _ _ _ U) as L. specialize (C3 i0 k0 Hk0 Hs0).
-             unfold nn, proj. simpl. destruct (r0 =? r); destruct C as [[j ->] | ->]; simpl;
-               destruct (r =? r0); simpl; try rewrite Z.eqb_refl; simpl;
-               try destruct (r0 =? r); simpl; lia.
-          -- unfold ne, proj. simpl. destruct C as [[j ->] | ->]; simpl; destruct (r0 =? r); reflexivity.
+        split_callback H.
+        * destruct pan.
+          -- destruct (unwind r wl) as [wl1 x] eqn:U.
+             destruct (unwind_spec _ _ _ _ U) as (_ & _ & C). injection H as <- <- <-.
+             eapply ci_quiet; [exact HC | | reflexivity | reflexivity | reflexivity | left; reflexivity | | |].
+             ++ repeat constructor. destruct C as [[j ->] | ->]; exact I.
+             ++ intros j k Hk Hs. pose proof (cnt_tl j wl1). pose proof (cnt_unwind r j _ _ _ U).
+                specialize (C3 j k Hk Hs). lia.
+             ++ pose proof (cnt_unwind r i0 _ _ _ U) as L.
+                unfold nn, proj. simpl. destruct (r0 =? r); destruct C as [[j ->] | ->]; simpl;
+                  destruct (r =? r0); simpl; try rewrite Z.eqb_refl; simpl;
+                  try destruct (r0 =? r); simpl; lia.
+             ++ unfold ne, proj. simpl. destruct C as [[j ->] | ->]; simpl; destruct (r0 =? r); reflexivity.
+          -- inv H.
+             eapply ci_quiet; [exact HC | | reflexivity | reflexivity | reflexivity | left; reflexivity | | |].
+             ++ repeat constructor.
+             ++ intros j k Hk Hs. pose proof (cnt_tl j wl'). specialize (C3 j k Hk Hs). lia.
+             ++ unfold nn, proj. simpl. destruct (r0 =? r); simpl; destruct (r =? r0); lia.
+             ++ unfold ne, proj. simpl. destruct (r0 =? r); reflexivity.
         * inv H.
-          eapply ci_quiet; [exact HC | | reflexivity | reflexivity | reflexivity | | |].
+          eapply ci_quiet; [exact HC | | reflexivity | reflexivity | reflexivity | left; reflexivity | | |].
           -- repeat constructor.
-          -- intros j k Hk Hs. pose proof (cnt_tl j wl'). specialize (C3 j k Hk Hs). lia.
-          -- specialize (C3 i0 k0 Hk0 Hs0). unfold nn, proj. simpl. destruct (r0 =? r); simpl; destruct (r =? r0); lia.
+          -- intros j k Hk Hs. reflexivity.
+          -- unfold nn, proj. simpl. destruct (r0 =? r); simpl; destruct (r =? r0); lia.
+          -- unfold ne, proj. simpl. destruct (r0 =? r); reflexivity.
+        * inv H.
+          eapply ci_quiet; [exact HC | | reflexivity | reflexivity | reflexivity | right; eexists; reflexivity | | |].
+          -- repeat constructor.
+          -- intros j k Hk Hs. reflexivity.
+          -- unfold nn, proj. simpl. destruct (r0 =? r); simpl; destruct (r =? r0); lia.
           -- unfold ne, proj. simpl. destruct (r0 =? r); reflexivity.
       + destruct (in_range _ _ _ N P) as [R L]. rewrite R in H. inv H.
         set (idx := b_idx s) in *.
         set (k := nth (Z.to_nat idx) (e_mods e) KWelcome) in *.
-        set (bh := entry_beh e fwd (b_live s) (zmem idx (b_prov s)) (zmem idx (b_half s)) k) in *.
+        set (bh := entry_beh e fwd (b_live s) (b_bound s) (zmem idx (b_prov s)) (zmem idx (b_half s)) k) in *.
         assert (HK : kind_at e idx = Some k) by (apply kind_at_nth; exact R).
         assert (US : ustate e df false [] (acc ++ [EEnter r idx]) =
                      (entry_live e fwd (b_live s) k, entry_half e fwd idx (b_half s) k)).
         { rewrite ustate_app, C2. simpl. rewrite HD, HK. reflexivity. }
-        split; [|split; [|split]]; simpl b_caps; simpl b_live; simpl b_half.
+        split; [|split; [|split; [|split]]]; simpl b_caps; simpl b_live; simpl b_half; simpl b_susp.
         * rewrite C1, caps_of_app. reflexivity.
         * exact US.
         * intros j kj Hk Hs.
           destruct (Z.eq_dec j idx) as [->|NE].
           -- assert (kj = k) by congruence. subst kj.
-             pose proof (shipped_calls e fwd (b_live s) (zmem idx (b_prov s)) (zmem idx (b_half s)) k Hs) as B.
+             pose proof (shipped_calls e fwd (b_live s) (b_bound s) (zmem idx (b_prov s)) (zmem idx (b_half s)) k Hs) as B.
              fold bh in B. destruct (calls_of bh) as [|c [|c2 cs]]; simpl in *; try lia; apply (C3 idx k HK Hs).
           -- pose proof (cnt_tl j (map (ANx idx) (calls_of bh) ++ AEnd idx (panics_of bh) :: wl)) as T.
              rewrite cnt_app, (cnt_calls_other _ _ _ NE) in T. simpl in T. specialize (C3 j kj Hk Hs). lia.
         * unfold un. rewrite unclaimed_app, C2. simpl. rewrite HD, HK. rewrite app_nil_r, pair_mem_app.
           intro U. apply orb_false_iff in U. destruct U as [U1 U2]. specialize (C4 U1).
           rewrite nn_app, ne_app. unfold nn at 2, ne at 2, proj. simpl. rewrite app_nil_r.
-          specialize (C3 i0 k0 Hk0 Hs0).
           destruct (Z.eqb_spec r0 r) as [ER|NR].
           -- assert (ER' : (r =? r0) = true) by (apply Z.eqb_eq; auto). rewrite ER' in *. simpl in C4. simpl. rewrite cnt_app. simpl.
              destruct (Z.eqb_spec i0 idx) as [EI|NI].
@@ -1694,37 +2093,57 @@ Section Calls.
                 { apply shipped_entry_once; [congruence | |].
                   - intros EK ->. rewrite EK in NM. simpl in NM. destruct (b_live s); [reflexivity | discriminate].
                   - intros EK ->. rewrite EK in NM. simpl in NM. exact NM. }
-                rewrite EB. simpl. rewrite EI, Z.eqb_refl. rewrite EI in C3. rewrite EI in C4. lia.
+                rewrite EB. simpl. rewrite EI, Z.eqb_refl. rewrite EI in Z0. rewrite EI in C4. lia.
              ++ rewrite (cnt_calls_other _ _ _ NI). simpl. lia.
           -- destruct (Z.eqb_spec r r0) as [X|_]; [congruence|]. simpl. lia.
+        * exact C5.
     - (* ANx *)
       destruct b.
       + inv H. simpl b_idx.
-        eapply ci_quiet; [exact HC | | reflexivity | reflexivity | reflexivity | | |].
+        eapply ci_quiet; [exact HC | | reflexivity | reflexivity | reflexivity | left; reflexivity | | |].
         * repeat constructor.
         * exact C3.
         * unfold nn, proj. simpl. destruct (Z.eqb_spec r0 r) as [ER|NR].
           -- assert (ER' : (r =? r0) = true) by (apply Z.eqb_eq; auto). rewrite ER'. simpl. destruct (i0 =? i); simpl; lia.
           -- destruct (Z.eqb_spec r r0); [congruence|]. simpl. lia.
         * unfold ne, proj. simpl. destruct (r0 =? r); reflexivity.
-      + inv H.
-        eapply ci_quiet; [exact HC | | reflexivity | reflexivity | reflexivity | | |].
-        * repeat constructor.
-        * intros j k Hk Hs. pose proof (cnt_tl j wl'). specialize (C3 j k Hk Hs). lia.
-        * unfold nn, proj. simpl. destruct (Z.eqb_spec r0 r) as [ER|NR].
-          -- assert (ER' : (r =? r0) = true) by (apply Z.eqb_eq; auto). rewrite ER'. simpl. destruct (i0 =? i); simpl; lia.
-          -- destruct (Z.eqb_spec r r0); [congruence|]. simpl. lia.
-        * unfold ne, proj. simpl. destruct (r0 =? r); reflexivity.
+      + assert (NN : forall x, (x = [] \/ x = [EDeadlock r]) ->
+                  (nn ([ENext r i false; EFin r false] ++ x) + (if Z.eqb r r0 then 0 else 0) =
+                   (if Z.eqb r r0 then cnt i0 (ANx i false :: wl) else 0))%nat /\
+                  ne ([ENext r i false; EFin r false] ++ x) = 0%nat).
+        { intros x Hx. split.
+          - unfold nn, proj. destruct Hx as [-> | ->]; simpl; destruct (Z.eqb_spec r0 r) as [ER|NR].
+            + assert (ER' : (r =? r0) = true) by (apply Z.eqb_eq; auto). rewrite ER'. simpl. destruct (i0 =? i); simpl; lia.
+            + destruct (Z.eqb_spec r r0); [congruence|]. simpl. lia.
+            + assert (ER' : (r =? r0) = true) by (apply Z.eqb_eq; auto). rewrite ER'. simpl. destruct (i0 =? i); simpl; lia.
+            + destruct (Z.eqb_spec r r0); [congruence|]. simpl. lia.
+          - unfold ne, proj. destruct Hx as [-> | ->]; simpl; destruct (r0 =? r); reflexivity. }
+        split_callback H; inv H.
+        * eapply ci_quiet; [exact HC | | reflexivity | reflexivity | reflexivity | left; reflexivity | | |].
+          -- repeat constructor.
+          -- intros j k Hk Hs. pose proof (cnt_tl j wl'). specialize (C3 j k Hk Hs). lia.
+          -- destruct (NN [] (or_introl eq_refl)) as [X _]. rewrite app_nil_r in X. rewrite Z0. destruct (r =? r0); lia.
+          -- destruct (NN [] (or_introl eq_refl)) as [_ X]. rewrite app_nil_r in X. exact X.
+        * eapply ci_quiet; [exact HC | | reflexivity | reflexivity | reflexivity | left; reflexivity | | |].
+          -- repeat constructor.
+          -- intros j k Hk Hs. reflexivity.
+          -- destruct (NN [EDeadlock r] (or_intror eq_refl)) as [X _]. simpl cnt at 1. exact X.
+          -- destruct (NN [EDeadlock r] (or_intror eq_refl)) as [_ X]. exact X.
+        * eapply ci_quiet; [exact HC | | reflexivity | reflexivity | reflexivity | right; eexists; reflexivity | | |].
+          -- repeat constructor.
+          -- intros j k Hk Hs. reflexivity.
+          -- destruct (NN [] (or_introl eq_refl)) as [X _]. rewrite app_nil_r in X. simpl cnt at 1. exact X.
+          -- destruct (NN [] (or_introl eq_refl)) as [_ X]. rewrite app_nil_r in X. exact X.
     - (* AEnd *)
       inv H.
-      eapply ci_quiet; [exact HC | | reflexivity | reflexivity | reflexivity | | |].
+      eapply ci_quiet; [exact HC | | reflexivity | reflexivity | reflexivity | left; reflexivity | | |].
       + destruct p; repeat constructor.
       + intros j k Hk Hs. pose proof (cnt_tl j wl'). specialize (C3 j k Hk Hs). lia.
       + unfold nn, proj. destruct p; simpl; destruct (r =? r0); simpl; lia.
       + unfold ne, proj. destruct p; reflexivity.
   Qed.
 
-  Lemma exec_ci F r fwd f s wl acc s' evs :
+  Lemma exec_ci locked F r fwd f s wl acc s' evs :
     dir_at df r = Some fwd ->
     (phi e fwd (b_idx s) wl <= f)%nat -> Good e fwd s wl -> CI F r s wl acc ->
     exec e locked r fwd f s wl = (s', evs) -> CI F r s' [] (acc ++ evs).
@@ -1734,7 +2153,7 @@ Section Calls.
     intros. eapply step_ci; eauto.
   Qed.
 
-  (* between operations *)
+  (* between operations (and between the bursts of one operation) *)
   Definition DirOK (g : st) : Prop :=
     forall k fwd idx, nth_error (s_runs g) k = Some (fwd, idx) -> nth_error df k = Some fwd.
 
@@ -1743,22 +2162,26 @@ Section Calls.
     ustate e df false [] log = (s_live g, s_half g) /\
     (pair_mem r0 i0 (un log) = false -> nn log = (ne log + F)%nat).
 
-  Lemma burst_cg g log F r fwd idx wl g' evs :
+  Lemma burst_cg locked g log F r fwd idx wl g' evs :
     dir_at df r = Some fwd ->
     near e fwd idx -> wl_ok wl -> (phi e fwd idx wl <= fuel_for e)%nat ->
-    (forall i k, kind_at e i = Some k -> shipped k = true -> cnt i (tl wl) = 0%nat) ->
-    CG g log F -> burst e g r fwd idx wl = (g', evs) ->
-    CG g' (log ++ evs) (F + (if Z.eqb r r0 then cnt i0 wl else 0)).
+    quiet_rest (tl wl) ->
+    CG g log F -> burst e locked g r fwd idx wl = (g', evs) ->
+    CG g' (log ++ evs) (F + (if Z.eqb r r0 then cnt i0 wl else 0)) /\
+    match s_susp g' with Some (_, wl1, _) => quiet_rest wl1 | None => True end.
   Proof.
     intros HD N W Fu HO (C1 & C2 & C3) H. unfold burst in H.
-    set (s0 := {| b_idx := idx; b_app := s_app g; b_cleaned := s_cleaned g; b_live := s_live g; b_prov := s_prov g; b_half := s_half g; b_caps := s_caps g |}) in *.
+    set (s0 := {| b_idx := idx; b_app := s_app g; b_cleaned := s_cleaned g; b_live := s_live g; b_bound := s_bound g; b_pub := s_pub g;
+                  b_prov := s_prov g; b_half := s_half g; b_caps := s_caps g; b_susp := None; b_dead := false |}) in *.
     destruct (exec e locked r fwd (fuel_for e) s0 wl) as [s1 evs1] eqn:E. inv H.
     assert (G0 : Good e fwd s0 wl) by (split; assumption).
     assert (I0 : CI (F + (if Z.eqb r r0 then cnt i0 wl else 0)) r s0 wl log).
-    { split; [exact C1|]. split; [exact C2|]. split; [exact HO|]. intro U. specialize (C3 U). lia. }
-    destruct (exec_ci _ r fwd (fuel_for e) s0 wl log s1 evs HD Fu G0 I0 E) as (D1 & D2 & _ & D4).
-    split; [exact D1|]. split; [exact D2|]. intro U. specialize (D4 U).
-    simpl in D4. destruct (r =? r0); lia.
+    { split; [exact C1|]. split; [exact C2|]. split; [exact HO|]. split; [|exact I]. intro U. specialize (C3 U). lia. }
+    destruct (exec_ci locked _ r fwd (fuel_for e) s0 wl log s1 evs HD Fu G0 I0 E) as (D1 & D2 & _ & D4 & D5).
+    split.
+    - split; [exact D1|]. split; [exact D2|]. intro U. specialize (D4 U).
+      simpl in D4. destruct (r =? r0); lia.
+    - simpl. destruct (b_susp s1) as [[w q]|]; [exact D5 | exact I].
   Qed.
 
   (* completions the environment delivers to (r0, i0) with one operation *)
@@ -1774,8 +2197,8 @@ Section Calls.
     | _, _ => 0%nat
     end.
 
-  Lemma burst_dir g r fwd idx wl g' evs :
-    (Z.to_nat r < length (s_runs g))%nat -> burst e g r fwd idx wl = (g', evs) ->
+  Lemma burst_dir locked g r fwd idx wl g' evs :
+    (Z.to_nat r < length (s_runs g))%nat -> burst e locked g r fwd idx wl = (g', evs) ->
     exists idx', nth_error (s_runs g') (Z.to_nat r) = Some (fwd, idx').
   Proof.
     intros L H. unfold burst in H.
@@ -1787,64 +2210,27 @@ Section Calls.
     DirOK g' -> CG g log F -> new_run e g fwd = (g', evs) -> CG g' (log ++ evs) F.
   Proof.
     intros D C H. unfold new_run in H.
-    set (g1 := {| s_runs := s_runs g ++ [(fwd, first_idx e fwd)]; s_caps := s_caps g; s_app := s_app g;
-                  s_cleaned := s_cleaned g; s_live := s_live g; s_prov := s_prov g; s_half := s_half g |}) in *.
+    set (g1 := push_run g (fwd, first_idx e fwd)) in *.
     set (r := Z.of_nat (length (s_runs g))) in *.
     assert (L : (Z.to_nat r < length (s_runs g1))%nat).
     { unfold r. rewrite Nat2Z.id. simpl. rewrite app_length. simpl. lia. }
-    destruct (burst_dir _ _ _ _ _ _ _ L H) as [idx' Hr].
+    destruct (burst_dir _ _ _ _ _ _ _ _ L H) as [idx' Hr].
     assert (HD : dir_at df r = Some fwd).
     { unfold dir_at. destruct (Z.ltb_spec r 0); [unfold r in *; lia|]. exact (D _ _ _ Hr). }
     replace F with (F + (if Z.eqb r r0 then cnt i0 [ADo] else 0))%nat by (simpl; destruct (r =? r0); lia).
-    eapply (burst_cg g1); [exact HD | apply near_first | reflexivity | apply phi_start | | | exact H].
-    - intros; reflexivity.
-    - exact C.
+    assert (QT : quiet_rest (tl [ADo])) by (intros i k _ _; reflexivity).
+    exact (proj1 (burst_cg true g1 log F r fwd _ [ADo] g' evs HD (near_first e fwd) eq_refl (phi_start e fwd) QT C H)).
   Qed.
 
-  Lemma exec_fire_nonempty r fwd f s i b wl s' evs :
+  Lemma exec_fire_nonempty locked r fwd f s i b wl s' evs :
     exec e locked r fwd (S f) s (ANx i b :: wl) = (s', evs) -> exists x l, evs = x :: l.
   Proof.
-    simpl. destruct b.
-    - destruct (exec e locked r fwd f _ (ADo :: wl)) as [s2 e2]. intro H. inv H. eauto.
-    - destruct (exec e locked r fwd f s wl) as [s2 e2]. intro H. inv H. eauto.
-  Qed.
-
-  Lemma do_op_cg g log F o g' evs :
-    GInv e g log -> DirOK g' -> CG g log F -> do_op e g o = (g', evs) ->
-    CG g' (log ++ evs) (F + fire1 o evs (s_caps g)).
-  Proof.
-    intros G D C H.
-    assert (Triv : forall o', fire1 o' [] (s_caps g) = 0%nat) by (intros []; reflexivity).
-    destruct o as [m|a en et|k|ft| | |k b]; simpl in H;
-      try (inv H; rewrite app_nil_r, Triv, Nat.add_0_r; exact C).
-    - simpl fire1. rewrite Nat.add_0_r. destruct (is_app (e_mode e)).
-      + destruct (s_app g =? 1); [|inv H; rewrite app_nil_r; exact C].
-        eapply new_run_cg; [exact D | | exact H]. exact C.
-      + eapply new_run_cg; eauto.
-    - simpl fire1. rewrite Nat.add_0_r. destruct (is_app (e_mode e)).
-      + destruct (s_app g =? 3); [|inv H; rewrite app_nil_r; exact C].
-        eapply new_run_cg; [exact D | | exact H]. exact C.
-      + eapply new_run_cg; eauto.
-    - destruct (Z.ltb_spec k 0) as [KN|KP]; [inv H; rewrite app_nil_r, Triv, Nat.add_0_r; exact C|].
-      destruct (nth_error (s_caps g) (Z.to_nat k)) as [[r i]|] eqn:Hc; [|inv H; rewrite app_nil_r, Triv, Nat.add_0_r; exact C].
-      destruct (nth_error (s_runs g) (Z.to_nat r)) as [[fwd idx]|] eqn:Hr; [|inv H; rewrite app_nil_r, Triv, Nat.add_0_r; exact C].
-      destruct G as (CK & T & O). destruct (O _ _ _ Hr) as [N _].
-      assert (NN : 0 <= r).
-      { apply nth_error_In in Hc. unfold caps_ok in CK. rewrite Forall_forall in CK. apply (CK _ Hc). }
-      assert (L : (Z.to_nat r < length (s_runs g))%nat) by (apply nth_error_Some; congruence).
-      destruct (burst_dir _ _ _ _ _ _ _ L H) as [idx' Hr'].
-      assert (HD : dir_at df r = Some fwd).
-      { unfold dir_at. destruct (Z.ltb_spec r 0); [lia|]. exact (D _ _ _ Hr'). }
-      assert (NE : exists x l, evs = x :: l).
-      { unfold burst in H. destruct (exec e locked r fwd (fuel_for e) _ [ANx i b]) as [s1 evs1] eqn:E. inv H.
-        exact (exec_fire_nonempty r fwd (S (length (e_mods e) * weight e)) _ i b [] _ _ E). }
-      destruct NE as (x & l & ->).
-      assert (EQ : fire1 (OFire k b) (x :: l) (s_caps g) = (if Z.eqb r r0 then cnt i0 [ANx i b] else 0)%nat).
-      { simpl. unfold hit. destruct (Z.ltb_spec k 0); [lia|]. rewrite Hc. simpl.
-        rewrite (Z.eqb_sym r0 r). destruct (r =? r0); simpl; [destruct (i0 =? i); reflexivity | reflexivity]. }
-      rewrite EQ.
-      eapply burst_cg; [exact HD | exact N | reflexivity | apply phi_fire; exact N | | exact C | exact H].
-      intros; reflexivity.
+    intro H. cbn [exec] in H.
+    destruct (step e locked r fwd (ANx i b) s wl) as [[s1 wl1] e1] eqn:E.
+    destruct (exec e locked r fwd f s1 wl1) as [s2 e2]. inv H.
+    assert (exists x l, e1 = x :: l) as (x & l & ->).
+    { unfold step in E. destruct b; [inv E; eauto|]. split_callback E; inv E; simpl; eauto. }
+    simpl. eauto.
   Qed.
 
   (* directions of existing runs never change *)
@@ -1857,8 +2243,8 @@ Section Calls.
     - rewrite nth_error_upd_other by exact NE. eauto.
   Qed.
 
-  Lemma burst_dirs g r fwd idx0 idx wl g' evs :
-    nth_error (s_runs g) (Z.to_nat r) = Some (fwd, idx0) -> burst e g r fwd idx wl = (g', evs) ->
+  Lemma burst_dirs locked g r fwd idx0 idx wl g' evs :
+    nth_error (s_runs g) (Z.to_nat r) = Some (fwd, idx0) -> burst e locked g r fwd idx wl = (g', evs) ->
     forall j f i, nth_error (s_runs g) j = Some (f, i) -> exists i', nth_error (s_runs g') j = Some (f, i').
   Proof.
     intros Hr H. unfold burst in H.
@@ -1877,12 +2263,117 @@ Section Calls.
     - simpl. rewrite nth_error_app1; [exact Hj|]. apply nth_error_Some. congruence.
   Qed.
 
+  Lemma settle_dirs : forall n g g' evs,
+    settle n e g = (g', evs) ->
+    forall j f i, nth_error (s_runs g) j = Some (f, i) -> exists i', nth_error (s_runs g') j = Some (f, i').
+  Proof.
+    induction n as [|n IH]; intros g g' evs H j f i Hj; simpl in H.
+    - destruct (s_susp g) as [[[r wl] q]|]; inv H; eauto.
+    - destruct (s_susp g) as [[[r wl] q]|]; [|inv H; eauto].
+      destruct (new_run e (set_app g (if q then 2 else 4)) q) as [g1 e1] eqn:E1.
+      destruct (new_run_dirs _ _ _ _ E1 _ _ _ Hj) as [i1 H1].
+      destruct (s_dead g1); [inv H; eauto|].
+      destruct (nth_error (s_runs g1) (Z.to_nat r)) as [[fwd idx]|] eqn:Hr; [|inv H; eauto].
+      destruct (burst e false g1 r fwd idx wl) as [g2 e2] eqn:E2.
+      destruct (settle n e g2) as [g3 e3] eqn:E3. inv H.
+      destruct (burst_dirs _ _ _ _ _ _ _ _ _ Hr E2 _ _ _ H1) as [i2 H2].
+      eapply IH; eauto.
+  Qed.
+
+  Lemma dirok_of g g' :
+    (forall j f i, nth_error (s_runs g) j = Some (f, i) -> exists i', nth_error (s_runs g') j = Some (f, i')) ->
+    DirOK g' -> DirOK g.
+  Proof. intros M D k fwd idx Hk. destruct (M _ _ _ Hk) as [i' Hk']. exact (D _ _ _ Hk'). Qed.
+
+  (* the requests carried out after a burst add no completion to (r0, i0) *)
+  Lemma settle_cg F : forall n g log g' evs,
+    SInv e n g log -> DirOK g' -> CG g log F ->
+    match s_susp g with Some (_, wl, _) => quiet_rest wl | None => True end ->
+    settle n e g = (g', evs) -> CG g' (log ++ evs) F.
+  Proof.
+    induction n as [|n IH]; intros g log g' evs S D C QR H.
+    - simpl in H. destruct (s_susp g) as [[[r wl] q]|] eqn:SG.
+      + destruct (sinv_fuel _ _ _ _ _ _ S SG).
+      + inv H. rewrite app_nil_r. exact C.
+    - simpl in H. destruct (s_susp g) as [[[r wl] q]|] eqn:SG.
+      2:{ inv H. rewrite app_nil_r. exact C. }
+      destruct (new_run e (set_app g (if q then 2 else 4)) q) as [g1 e1] eqn:E1.
+      destruct (settle_step e n g log r wl q g1 e1 S SG E1)
+        as (fwd & idx & Hr & Hr1 & R & N & ND & PF & AC & G1 & NEXT).
+      destruct (s_dead g1) eqn:DD.
+      { inv H. eapply new_run_cg; [exact D | | exact E1]. exact C. }
+      rewrite Hr1 in H.
+      destruct (burst e false g1 r fwd idx wl) as [g2 e2] eqn:E2.
+      destruct (settle n e g2) as [g3 e3] eqn:E3. inv H.
+      assert (D2 : DirOK g2) by (eapply dirok_of; [eapply settle_dirs; exact E3 | exact D]).
+      assert (D1 : DirOK g1) by (eapply dirok_of; [eapply burst_dirs; [exact Hr1 | exact E2] | exact D2]).
+      assert (C1 : CG g1 (log ++ e1) F) by (eapply new_run_cg; [exact D1 | | exact E1]; exact C).
+      assert (KR : (Z.to_nat r < length (s_runs g1))%nat) by (apply nth_error_Some; congruence).
+      destruct (burst_dir _ _ _ _ _ _ _ _ KR E2) as [idx2 Hr2].
+      assert (HD : dir_at df r = Some fwd).
+      { unfold dir_at. destruct (Z.ltb_spec r 0); [lia|]. exact (D2 _ _ _ Hr2). }
+      assert (QT : quiet_rest (tl wl)).
+      { intros i k Hk Hs. pose proof (cnt_tl i wl). specialize (QR i k Hk Hs). lia. }
+      destruct (burst_cg false g1 (log ++ e1) F r fwd idx wl g2 e2 HD N (no_do_tl _ ND) PF QT C1 E2) as [C2 QR2].
+      rewrite (QR i0 k0 Hk0 Hs0) in C2.
+      replace (F + (if Z.eqb r r0 then 0 else 0))%nat with F in C2 by (destruct (Z.eqb r r0); lia).
+      rewrite !app_assoc.
+      eapply IH; [exact (NEXT _ _ eq_refl) | exact D | exact C2 | | exact E3].
+      destruct (s_susp g2) as [[[r2 w2] q2]|]; [exact QR2 | exact I].
+  Qed.
+
+  Lemma do_op_cg g log F o g' evs :
+    GInv e g log -> DirOK g' -> CG g log F -> do_op e g o = (g', evs) ->
+    CG g' (log ++ evs) (F + fire1 o evs (s_caps g)).
+  Proof.
+    intros G D C H. unfold do_op in H.
+    assert (Triv : forall o', fire1 o' [] (s_caps g) = 0%nat) by (intros []; reflexivity).
+    destruct (s_dead g); [inv H; rewrite app_nil_r, Triv, Nat.add_0_r; exact C|].
+    destruct o as [m|a en et|k|ft|cf cq| | |k b];
+      try (inv H; rewrite app_nil_r, Triv, Nat.add_0_r; exact C).
+    - simpl fire1. rewrite Nat.add_0_r. destruct (is_app (e_mode e)).
+      + destruct (s_app g =? 1); [|inv H; rewrite app_nil_r; exact C].
+        eapply new_run_cg; [exact D | | exact H]. exact C.
+      + eapply new_run_cg; eauto.
+    - simpl fire1. rewrite Nat.add_0_r. destruct (is_app (e_mode e)).
+      + destruct (s_app g =? 3); [|inv H; rewrite app_nil_r; exact C].
+        eapply new_run_cg; [exact D | | exact H]. exact C.
+      + eapply new_run_cg; eauto.
+    - destruct (Z.ltb_spec k 0) as [KN|KP]; [inv H; rewrite app_nil_r, Triv, Nat.add_0_r; exact C|].
+      destruct (nth_error (s_caps g) (Z.to_nat k)) as [[r i]|] eqn:Hc; [|inv H; rewrite app_nil_r, Triv, Nat.add_0_r; exact C].
+      destruct (nth_error (s_runs g) (Z.to_nat r)) as [[fwd idx]|] eqn:Hr; [|inv H; rewrite app_nil_r, Triv, Nat.add_0_r; exact C].
+      pose proof G as (CK & T & O & SN). destruct (O _ _ _ Hr) as [N _].
+      assert (NN : 0 <= r).
+      { apply nth_error_In in Hc. unfold caps_ok in CK. rewrite Forall_forall in CK. apply (CK _ Hc). }
+      destruct (burst e false g r fwd idx [ANx i b]) as [g1 e1] eqn:E1.
+      destruct (settle (fuel_for e) e g1) as [g2 e2] eqn:E2. inv H.
+      assert (D1 : DirOK g1) by (eapply dirok_of; [eapply settle_dirs; exact E2 | exact D]).
+      assert (L : (Z.to_nat r < length (s_runs g))%nat) by (apply nth_error_Some; congruence).
+      destruct (burst_dir _ _ _ _ _ _ _ _ L E1) as [idx' Hr'].
+      assert (HD : dir_at df r = Some fwd).
+      { unfold dir_at. destruct (Z.ltb_spec r 0); [lia|]. exact (D1 _ _ _ Hr'). }
+      assert (NE : exists x l, e1 = x :: l).
+      { unfold burst in E1. destruct (exec e false r fwd (fuel_for e) _ [ANx i b]) as [s1 evs1] eqn:E. inv E1.
+        exact (exec_fire_nonempty false r fwd (S (length (e_mods e) * weight e)) _ i b [] _ _ E). }
+      destruct NE as (x & l & ->).
+      assert (EQ : fire1 (OFire k b) ((x :: l) ++ e2) (s_caps g) = (if Z.eqb r r0 then cnt i0 [ANx i b] else 0)%nat).
+      { simpl. unfold hit. destruct (Z.ltb_spec k 0); [lia|]. rewrite Hc. simpl.
+        rewrite (Z.eqb_sym r0 r). destruct (r =? r0); simpl; [destruct (i0 =? i); reflexivity | reflexivity]. }
+      rewrite EQ.
+      destruct (burst_cg false g log F r fwd idx [ANx i b] g1 (x :: l) HD N eq_refl (phi_fire e fwd idx i b N)
+                  (fun _ _ _ _ => eq_refl) C E1) as [C1 QR1].
+      rewrite app_assoc.
+      eapply settle_cg; [eapply fire_sinv; eauto | exact D | exact C1 | | exact E2].
+      destruct (s_susp g1) as [[[r1 w1] q1]|]; [exact QR1 | exact I].
+  Qed.
+
   Lemma do_op_dirs g o g' evs :
     do_op e g o = (g', evs) ->
     forall j f i, nth_error (s_runs g) j = Some (f, i) -> exists i', nth_error (s_runs g') j = Some (f, i').
   Proof.
-    intros H j f i Hj.
-    destruct o as [m|a en et|k|ft| | |k b]; simpl in H; try (inv H; eauto; fail).
+    intros H j f i Hj. unfold do_op in H.
+    destruct (s_dead g); [inv H; eauto|].
+    destruct o as [m|a en et|k|ft|cf cq| | |k b]; try (inv H; eauto; fail).
     - destruct (is_app (e_mode e)).
       + destruct (s_app g =? 1); [|inv H; eauto]. eapply (new_run_dirs (set_app g 2)); eauto.
       + eapply new_run_dirs; eauto.
@@ -1892,13 +2383,14 @@ Section Calls.
     - destruct (k <? 0); [inv H; eauto|].
       destruct (nth_error (s_caps g) (Z.to_nat k)) as [[r i']|]; [|inv H; eauto].
       destruct (nth_error (s_runs g) (Z.to_nat r)) as [[fwd idx]|] eqn:Hr; [|inv H; eauto].
-      eapply burst_dirs; eauto.
+      destruct (burst e false g r fwd idx [ANx i' b]) as [g1 e1] eqn:E1.
+      destruct (settle (fuel_for e) e g1) as [g2 e2] eqn:E2. inv H.
+      destruct (burst_dirs _ _ _ _ _ _ _ _ _ Hr E1 _ _ _ Hj) as [i1 H1].
+      eapply settle_dirs; eauto.
   Qed.
 
   Lemma dirok_back g o g' evs : do_op e g o = (g', evs) -> DirOK g' -> DirOK g.
-  Proof.
-    intros H D k fwd idx Hk. destruct (do_op_dirs _ _ _ _ H _ _ _ Hk) as [i' Hk']. exact (D _ _ _ Hk').
-  Qed.
+  Proof. intros H D. eapply dirok_of; [eapply do_op_dirs; exact H | exact D]. Qed.
 
   Lemma run_from_dirok : forall ops g g' xs, run_from e g ops = (g', xs) -> DirOK g' -> DirOK g.
   Proof.
@@ -1913,9 +2405,10 @@ Section Calls.
     forall ops xs, fires_to (o :: ops) (x :: xs) cf r0 i0 = (fire1 o x (s_caps g) + fires_to ops xs cf r0 i0)%nat.
   Proof.
     intros H [suf ->] ops xs.
-    destruct o as [m|a en et|k|ft| | |k b]; try reflexivity.
+    destruct o as [m|a en et|k|ft|cf cq| | |k b]; try reflexivity.
     destruct x as [|x0 x]; [reflexivity|].
-    simpl in H. simpl. unfold hit.
+    unfold do_op in H. simpl. unfold hit.
+    destruct (s_dead g); [inv H|].
     destruct (Z.ltb_spec k 0) as [KN|KP]; [inv H|].
     destruct (nth_error (s_caps g) (Z.to_nat k)) as [[r i]|] eqn:Hc; [|inv H].
     rewrite nth_error_app1 by (apply nth_error_Some; congruence). rewrite Hc.
@@ -1957,3 +2450,70 @@ Qed.
 
 Lemma call_once_b_iff ops obs r i : call_once_b ops obs r i = true <-> call_once ops obs r i.
 Proof. unfold call_once_b, call_once. apply Nat.eqb_eq. Qed.
+
+(* ---- deadlock ---- *)
+Lemma after_deadlock pre o :
+  s_dead (final pre) = true -> decl (env_of pre) o = env_of pre ->
+  final (pre ++ [o]) = final pre /\ run (pre ++ [o]) = run pre ++ [[]].
+Proof.
+  intros D E. destruct (final_snoc pre o E) as [A B]. rewrite A, B. unfold do_op. rewrite D. auto.
+Qed.
+
+Definition DInv (e : env) (g : st) : Prop :=
+  s_dead g = true -> is_app (e_mode e) = true /\ (s_app g = 2 \/ s_app g = 4).
+
+Lemma burst_dinv e locked g r fwd idx wl g' evs :
+  near e fwd idx -> wl_ok wl -> (phi e fwd idx wl <= fuel_for e)%nat ->
+  burst e locked g r fwd idx wl = (g', evs) -> DInv e g'.
+Proof.
+  intros N W F H D. unfold burst in H.
+  set (s0 := {| b_idx := idx; b_app := s_app g; b_cleaned := s_cleaned g; b_live := s_live g; b_bound := s_bound g; b_pub := s_pub g;
+                b_prov := s_prov g; b_half := s_half g; b_caps := s_caps g; b_susp := None; b_dead := false |}) in *.
+  destruct (exec e locked r fwd (fuel_for e) s0 wl) as [s1 evs1] eqn:E. inv H. simpl in *.
+  assert (G0 : Good e fwd s0 wl) by (split; assumption).
+  split; [exact (exec_dead_app e locked r fwd _ s0 wl s1 evs F G0 eq_refl E D)
+         | exact (exec_dead e locked r fwd _ s0 wl s1 evs F G0 eq_refl E D)].
+Qed.
+
+Lemma do_op_dinv e g log o g' evs :
+  GInv e g log -> DInv e g -> do_op e g o = (g', evs) -> DInv e g'.
+Proof.
+  intros G D H. unfold do_op in H.
+  destruct (s_dead g) eqn:DG; [inv H; exact D|].
+  assert (NR : forall g0 fwd, new_run e g0 fwd = (g', evs) -> DInv e g').
+  { intros g0 fwd X. unfold new_run in X.
+    exact (burst_dinv e true _ _ fwd _ [ADo] g' evs (near_first e fwd) eq_refl (phi_start e fwd) X). }
+  destruct o as [m|a en et|k|ft|cf cq| | |k b]; try (inv H; exact D).
+  - destruct (is_app (e_mode e)); [destruct (s_app g =? 1); [|inv H; exact D]|]; eapply NR; eauto.
+  - destruct (is_app (e_mode e)); [destruct (s_app g =? 3); [|inv H; exact D]|]; eapply NR; eauto.
+  - destruct (k <? 0); [inv H; exact D|].
+    destruct (nth_error (s_caps g) (Z.to_nat k)) as [[r i]|] eqn:Hc; [|inv H; exact D].
+    destruct (nth_error (s_runs g) (Z.to_nat r)) as [[fwd idx]|] eqn:Hr; [|inv H; exact D].
+    pose proof G as (CK & T & O & SN). destruct (O _ _ _ Hr) as [N _].
+    assert (NN : 0 <= r).
+    { apply nth_error_In in Hc. unfold caps_ok in CK. rewrite Forall_forall in CK. apply (CK _ Hc). }
+    destruct (burst e false g r fwd idx [ANx i b]) as [g1 e1] eqn:E1.
+    destruct (settle (fuel_for e) e g1) as [g2 e2] eqn:E2. inv H.
+    refine (proj2 (settle_ind e (fun _ g _ => DInv e g) _ _ _ (fuel_for e) g1 (log ++ e1) g' e2 _ _ E2)).
+    + auto.
+    + intros g0 log0 r1 wl q g3 e3 _ _ _ _ X. unfold new_run in X.
+      exact (burst_dinv e true _ _ q _ [ADo] g3 e3 (near_first e q) eq_refl (phi_start e q) X).
+    + intros g0 log0 r1 f1 i1 wl g3 e3 _ _ _ N1 ND PF _ X.
+      exact (burst_dinv e false _ _ f1 i1 wl g3 e3 N1 (no_do_tl _ ND) PF X).
+    + eapply fire_sinv; eauto.
+    + exact (burst_dinv e false _ _ fwd idx [ANx i b] g1 e1 N eq_refl (phi_fire e fwd idx i b N) E1).
+Qed.
+
+Lemma deadlock_only_accepted ops :
+  s_dead (final ops) = true ->
+  is_app (e_mode (env_of ops)) = true /\ (s_app (final ops) = 2 \/ s_app (final ops) = 4).
+Proof.
+  unfold final.
+  assert (X : forall ops0 e g log g' xs, GInv e g log -> DInv e g -> run_from e g ops0 = (g', xs) -> DInv e g').
+  { induction ops0 as [|o ops0 IH]; intros e g log g' xs G D H; simpl in H.
+    - inv H. exact D.
+    - destruct (do_op e g o) as [g1 x] eqn:E1. destruct (run_from e g1 ops0) as [g2 xs2] eqn:E2. inv H.
+      eapply IH; [eapply do_op_inv; eauto | eapply do_op_dinv; eauto | exact E2]. }
+  destruct (run_from (env_of ops) (init (env_of ops)) ops) as [g xs] eqn:E. simpl.
+  eapply X; [apply ginv_init | | exact E]. intro D. discriminate.
+Qed.
